@@ -45,11 +45,27 @@ CLAIM = {
             'np.random is an explicit stream; driver cos/sin/sqrt are binary64 libm. Partial: no-overlap of the '
             'non-convex 3-sector cells and of wrap-around cells is checked by sampling / centre distances only; '
             'almost-sure termination of rejection sampling is not a theorem; a plain (non-square) Rectangle under '
-            'setters is checked by oracle only (the state model covers Cell, Cell3Sec, CellSquare, CellWrap). Fixed: '
-            'defects 19, 20, 22 and the stale corners of Rectangle / CellSquare under the pos and radius setters.',
+            'setters is checked by oracle only. Robustness classes: R4 (rejected call leaves the object unchanged: '
+            'rejected_call_leaves_object, rejected_calls_characterised), R6 (homogeneity: border_scale_covariant, '
+            'rect_contains_scale_invariant) and R7 (every mutator incl. move_by_relative_coordinate / '
+            'move_by_relative_polar_coordinate: no_stale_state, users_follow_every_move, move_helpers_are_pos_setter, '
+            'wrap_no_stale_state) are theorems about the model AND are checked by correspondence + oracles; R1 '
+            '(element types: int/float/numpy scalars of every width, float16/32, complex64, integer / float32 arrays, '
+            'lists, tuples), R2 (strided / reversed / Fortran / broadcast / read-only / 0-d / empty / N-d arguments), '
+            'R3 (arguments snapshotted and compared after the call and after later calls, returned arrays overwritten, '
+            'class-level cluster cache, one cell in two wraps) and R5 (rotations at exact multiples of 90 degrees, '
+            'ratio 0/1/None, unit cell at the origin, cluster sizes 1..19 and squares incl. primes squared and 2^k+-1, '
+            'zero counts, degenerate point processes) are covered by correspondence / oracle only: the model takes '
+            'logical values and returns values, so type, layout and aliasing are facts about the tie, not the model. '
+            'All comparisons are relative to the input scale (inputs multiplied by 1e-12 .. 1e12).',
 }
 
 TOL = 1e-9
+
+
+def rclose(a, b, rtol):
+    """relative closeness without an absolute floor"""
+    return abs(a - b) <= rtol * max(abs(a), abs(b))
 
 
 # ------------------------------------------------------------------ implementation adapters
@@ -124,15 +140,26 @@ def spec_rot(spec):
     return spec['inner']['rot'] if spec['kind'] == 'wrap' else spec.get('rot', 0.0)
 
 
-def spec_scale(spec):
+def spec_pos(spec):
     k = spec['kind']
-    if k == 'wrap':
-        return max(1.0, abs(cx(spec['pos'])) + spec_scale(spec['inner']))
     if k == 'rect':
-        return max(1.0, abs(cx(spec['first'])), abs(cx(spec['second'])))
-    if k == 'square':
-        return max(1.0, abs(cx(spec['pos'])) + spec['side'])
-    return max(1.0, abs(cx(spec['pos'])) + spec['R'])
+        return (cx(spec['first']) + cx(spec['second'])) / 2
+    return cx(spec['pos'])
+
+
+def spec_scale(spec):
+    """the length every comparison is RELATIVE to: the size of the shape plus 1e-3 of its distance from
+    the origin (binary64 cancellation in `pos + offset` is proportional to |pos|); TOL * spec_scale =
+    1e-9 * size + 1e-12 * |pos|.  No absolute floor: inputs scaled by 1e-12 .. 1e12 are compared alike."""
+    if spec['kind'] == 'wrap':
+        return shape_size(spec['inner']) + 1e-3 * abs(cx(spec['pos']))
+    return shape_size(spec) + 1e-3 * abs(spec_pos(spec))
+
+
+def scale_class(spec):
+    """failure-class suffix of the input scale (R6)"""
+    k = spec.get('scale_exp', 0) if spec['kind'] != 'wrap' else spec['inner'].get('scale_exp', 0)
+    return '' if not k else ':scale=1e%+d' % k
 
 
 def shape_size(spec):
@@ -282,13 +309,14 @@ def o_vertices(case):
     ref = ref_vertices(spec)
     tol = TOL * spec_scale(spec)
     if len(got) != len(ref):
-        return 'vertices:%s' % base_kind(spec), '%d vertices, expected %d' % (len(got), len(ref))
+        return 'vertices:%s%s' % (base_kind(spec), scale_class(spec)), '%d vertices, expected %d' % (len(got), len(ref))
     # same polygon: same cyclic vertex sequence (the starting vertex is not part of the property)
     n = len(ref)
     for s in range(n):
         if all(abs(got[(i + s) % n] - ref[i]) <= tol for i in range(n)):
             return None
-    return 'vertices:%s' % base_kind(spec), 'vertices %s are not the %s of the definition %s' % (got[:3], spec['kind'], ref[:3])
+    return ('vertices:%s%s' % (base_kind(spec), scale_class(spec)),
+            'vertices %s are not the %s of the definition %s' % (got[:3], spec['kind'], ref[:3]))
 
 
 def o_contains(case):
@@ -303,7 +331,7 @@ def o_contains(case):
             continue
         got = bool(sh.is_point_inside_shape(p))
         if got != exp:
-            return ('contains-mismatch:%s:%s' % (base_kind(spec), rot_class(spec_rot(spec))),
+            return ('contains-mismatch:%s:%s%s' % (base_kind(spec), rot_class(spec_rot(spec)), scale_class(spec)),
                     'is_point_inside_shape(%r) = %s but the point is %s the polygon of the shape\'s vertices (margin %.3g)'
                     % (p, got, 'inside' if exp else 'outside', margin))
     return None
@@ -319,7 +347,9 @@ def o_border(case):
     kind = base_kind(spec)
     for ang, ratio in case['queries']:
         p = complex(sh.get_border_point(ang, ratio))
-        cls = 'border-off-boundary:%s%s' % (kind, rect_aspect_class(spec))
+        if ratio is None:          # `None` means the border itself
+            ratio = 1.0
+        cls = 'border-off-boundary:%s%s%s' % (kind, rect_aspect_class(spec), scale_class(spec))
         if ratio == 0:
             if abs(p - pos) > TOL * sc:
                 return cls, 'ratio 0 does not give the centre'
@@ -327,7 +357,7 @@ def o_border(case):
         b = pos + (p - pos) / ratio           # the un-scaled border point
         rel = (b - pos) * cis(-ang)           # must be a positive real
         if not (rel.real > 0 and abs(rel.imag) <= TOL * sc):
-            return ('border-wrong-direction:%s%s' % (kind, rect_aspect_class(spec)),
+            return ('border-wrong-direction:%s%s%s' % (kind, rect_aspect_class(spec), scale_class(spec)),
                     'angle %r ratio %r: point %r is not in direction %r from the centre' % (ang, ratio, p, ang))
         if kind == 'circle':
             off = abs(abs(b - pos) - spec['R'])
@@ -423,10 +453,11 @@ def o_random_user(case):
             np.random.set_state(st)
     for p in pts:
         if boundary_dist(ref, p) > 1e-9 * sc and not winding_inside(ref, p):
-            return ('user-outside-cell:%s:%s' % (base_kind(spec), rot_class(spec_rot(spec))),
+            return ('user-outside-cell:%s:%s%s' % (base_kind(spec), rot_class(spec_rot(spec)), scale_class(spec)),
                     'user placed at %r, %.3g outside the cell' % (p, boundary_dist(ref, p)))
         if abs(p - centre) < ratio * radius * (1 - 1e-12):
-            return 'user-too-close:%s' % base_kind(spec), 'user at distance %.6g < %.6g' % (abs(p - centre), ratio * radius)
+            return ('user-too-close:%s%s' % (base_kind(spec), scale_class(spec)),
+                    'user at distance %.6g < %.6g' % (abs(p - centre), ratio * radius))
     return None
 
 
@@ -475,7 +506,7 @@ def o_cluster(case):
     pos = cx(case['pos'])
     cl = cell.Cluster(cell_radius=R, num_cells=n, pos=pos, cell_type=ctype, rotation=rot)
     cells = list(cl)
-    sc = max(1.0, abs(pos) + 6 * R)
+    sc = 6 * R + 1e-3 * abs(pos)
     tol = TOL * sc
     cls = 'cluster:%s:' % ctype
     if len(cells) != n:
@@ -601,13 +632,15 @@ def o_distmatrix(case):
     for name in ('calc_dist_all_users_to_each_cell', 'calc_dist_all_users_to_each_cell_no_wrap_around'):
         M = np.asarray(getattr(cl, name)())
         if not users:
+            if M.size != 0:
+                return 'distmatrix:shape', '%s has %d entries for a cluster without users' % (name, M.size)
             continue
         if M.shape != (len(users), len(cells)):
             return 'distmatrix:shape', '%s has shape %s for %d users and %d cells' % (name, M.shape, len(users), len(cells))
         for i, u in enumerate(users):
             for j, c in enumerate(cells):
                 e = math.hypot(u.real - c.real, u.imag - c.imag)
-                if abs(M[i, j] - e) > 1e-9 * max(1.0, e):
+                if abs(M[i, j] - e) > 1e-9 * (case['R'] + e) + 1e-12 * abs(u):
                     return 'distmatrix:entry', '%s[%d,%d] = %r, Euclidean distance is %r' % (name, i, j, M[i, j], e)
     # users are in their cells
     for c in cl:
@@ -616,7 +649,7 @@ def o_distmatrix(case):
                     'side': case['R'], 'rot': case['rot'], 'pos': c2(complex(c.pos))}
             ref = ref_vertices(spec)
             p = complex(u.pos)
-            if boundary_dist(ref, p) > 1e-9 * max(1.0, abs(p)) and not winding_inside(ref, p):
+            if boundary_dist(ref, p) > 1e-9 * case['R'] + 1e-12 * abs(p) and not winding_inside(ref, p):
                 return ('user-outside-cell:%s:%s' % (spec['kind'], rot_class(case['rot'])),
                         'cluster user %r outside cell %s' % (p, c.id))
     return None
@@ -644,19 +677,20 @@ def o_pointprocess(case):
         return 'pointprocess:%s:count' % case['what'], 'shape %s for %d points' % (pts.shape, n)
     if case['what'] == 'circle':
         r = np.abs(pts)
-        slack = 1e-12 * max(1.0, case['rmax'])
+        slack = 1e-12 * case['rmax']
         if (r > case['rmax'] + slack).any() or (r < case['rmin'] - slack).any():
             return 'pointprocess:circle:out-of-range', 'radii in [%r, %r], requested [%r, %r]' % (
                 r.min(), r.max(), case['rmin'], case['rmax'])
     else:
-        slack = 1e-12 * max(1.0, case['w'], case['h'])
+        slack = 1e-12 * max(case['w'], case['h'])
         if (np.abs(pts.real) > case['w'] / 2 + slack).any() or (np.abs(pts.imag) > case['h'] / 2 + slack).any():
             return 'pointprocess:rectangle:out-of-range', 'point outside the %r x %r rectangle' % (case['w'], case['h'])
     return None
 
 
-# ------------------------------------------------------------------ setter histories (cells as state machines)
+# ------------------------------------------------------------------ histories (cells as state machines; R4, R7)
 SEC_ANGLE = [210.0, 330.0, 90.0]
+MOVE_OPS = ('P', 'M', 'Q')
 
 
 def hist_kind(case):
@@ -676,13 +710,19 @@ def hist_initial(case):
     return cx(init['pos']), init['R'], init['rot']
 
 
-def hist_current(case):
-    """(pos, radius, rotation, wrap position) after the setter calls, computed from the case alone"""
+def hist_current(case, upto=None):
+    """(pos, radius, rotation, wrap position) after the accepted mutator calls, from the case alone.
+    P = `pos = z`, M = move_by_relative_coordinate(d), Q = move_by_relative_polar_coordinate(r, a),
+    R = `radius = r`, T = `rotation = t`, W = `wrap.pos = z`; rejected calls (X) change nothing."""
     pos, R, rot = hist_initial(case)
     wpos = cx(case['wrap']) if case.get('wrap') is not None else None
-    for op in case['ops']:
+    for op in case['ops'][:upto]:
         if op[0] == 'P':
             pos = complex(op[1], op[2])
+        elif op[0] == 'M':
+            pos = pos + complex(op[1], op[2])
+        elif op[0] == 'Q':
+            pos = pos + cmath.rect(op[1], op[2])
         elif op[0] == 'R':
             R = op[1]
         elif op[0] == 'T':
@@ -692,9 +732,9 @@ def hist_current(case):
     return pos, R, rot, wpos
 
 
-def hist_current_spec(case):
+def hist_current_spec(case, upto=None, cell_only=False):
     """spec of the freshly constructed cell with the current (pos, radius, rotation)"""
-    pos, R, rot, wpos = hist_current(case)
+    pos, R, rot, wpos = hist_current(case, upto)
     init = case['init']
     k = init['kind']
     if k in ('hex', 'sec3'):
@@ -706,29 +746,147 @@ def hist_current_spec(case):
         _, R0, _ = hist_initial(case)
         half = complex(abs(a.real - b.real) / 2, abs(a.imag - b.imag) / 2) * (R / R0)
         spec = {'kind': 'rect', 'first': c2(pos - half), 'second': c2(pos + half), 'rot': rot}
-    if wpos is not None:
+    spec['scale_exp'] = init.get('scale_exp', 0)
+    if wpos is not None and not cell_only:
         return {'kind': 'wrap', 'pos': c2(wpos), 'inner': spec}
     return spec
 
 
-def hist_build(case):
-    """the real objects: construct, optionally add a user, apply the setter calls"""
+def observables(obj, wrap=None):
+    """everything a caller can see of the object(s): used to show that a rejected call changed nothing"""
+    out = [complex(obj.pos), float(obj.radius), complex(obj.rotation),
+           tuple(complex(v) for v in np.asarray(obj.vertices))]
+    if hasattr(obj, 'users'):
+        out.append(tuple(complex(u.pos) for u in obj.users))
+        out.append(tuple(u.cell_id for u in obj.users))
+    for name in ('_sec1', '_sec2', '_sec3'):
+        if hasattr(obj, name):
+            sec = getattr(obj, name)
+            out += [complex(sec.pos), float(sec.radius), complex(sec.rotation), len(sec.users)]
+    if wrap is not None:
+        out += [complex(wrap.pos), float(wrap.radius), complex(wrap.rotation),
+                tuple(complex(v) for v in np.asarray(wrap.vertices))]
+    return out
+
+
+def rejected_call(cell_mod, obj, wrap, op, size):
+    """perform a call that must be rejected; returns (exception type name or None if it was accepted,
+    description of a change of the ARGUMENT object or None)"""
+    what = op[1]
+    node = None
+    try:
+        if what == 'add_user_outside':
+            node = cell_mod.Node(complex(obj.pos) + 5.0 * float(obj.radius) * cis(op[2]))
+            before = complex(node.pos)
+            obj.add_user(node, relative_pos_bool=False)
+        elif what == 'add_user_outside_relative':
+            node = cell_mod.Node(3.0 * cis(op[2]))
+            before = complex(node.pos)
+            obj.add_user(node)
+        elif what == 'add_user_not_a_node':
+            obj.add_user(complex(obj.pos))
+        elif what == 'border_ratio':
+            obj.add_border_user(op[2], float(op[3]))
+        elif what == 'border_ratio_list':
+            obj.add_border_user([op[2], op[2] + 10.0], [0.5, float(op[3])])
+        elif what == 'sector_index':
+            obj.add_random_user_in_sector(op[2], None, 0.0)
+        elif what == 'wrap_radius':
+            wrap.radius = 2.0 * size
+        elif what == 'wrap_rotation':
+            wrap.rotation = 33.0
+        else:
+            raise KeyError(what)
+    except (ValueError, TypeError, RuntimeError, AttributeError) as e:
+        arg = None
+        if node is not None and complex(node.pos) != before:
+            arg = 'the rejected Node was left at %r (it was handed in at %r)' % (complex(node.pos), before)
+        return type(e).__name__, arg
+    return None, None
+
+
+EXPECTED_ERROR = {'add_user_outside': 'ValueError', 'add_user_outside_relative': 'ValueError',
+                  'add_user_not_a_node': 'TypeError', 'border_ratio': 'ValueError', 'border_ratio_list': 'ValueError',
+                  'sector_index': 'RuntimeError', 'wrap_radius': 'AttributeError', 'wrap_rotation': 'AttributeError'}
+
+
+def hist_build(case, check=None):
+    """the real objects: construct, then apply the calls of the history.
+    Returns (obj, wrap, tracked) where `tracked` is the first-principles expectation of the users' positions:
+    a user is recorded where it was put and is shifted by every later move of its cell.
+    `check(kind, detail)` is called for violations found on the way (rejected calls that change something)."""
     shapes, cell, _ = _mods()
     obj = make_shape(case['init'])
     wrap = cell.CellWrap(cx(case['wrap']), obj) if case.get('wrap') is not None else None
-    if case.get('pre_user') and hist_kind(case) != 'rect':
-        pos0, R0, rot0 = hist_initial(case)
-        obj.add_user(cell.Node(pos0 + 0.2 * shape_size(case['init']) * cis(rot0 + 17.0)), relative_pos_bool=False)
-    for op in case['ops']:
-        if op[0] == 'P':
+    tracked = []
+    size0 = shape_size(case['init'])
+    for i, op in enumerate(case['ops']):
+        t = op[0]
+        pos_before = complex(obj.pos)
+        if t == 'P':
             obj.pos = complex(op[1], op[2])
-        elif op[0] == 'R':
+        elif t == 'M':
+            obj.move_by_relative_coordinate(complex(op[1], op[2]))
+        elif t == 'Q':
+            obj.move_by_relative_polar_coordinate(op[1], op[2])
+        elif t == 'R':
             obj.radius = op[1]
-        elif op[0] == 'T':
+        elif t == 'T':
             obj.rotation = op[1]
-        elif op[0] == 'W':
+        elif t == 'W':
             wrap.pos = complex(op[1], op[2])
-    return obj, wrap
+        elif t == 'U':      # add_user at an absolute position inside the current cell
+            _, R, rot, _ = hist_current(case, i)
+            cspec = hist_current_spec(case, i, cell_only=True)
+            p = complex(obj.pos) + op[1] * inradius(cspec) * cis(op[2])
+            obj.add_user(cell.Node(p), relative_pos_bool=False)
+            tracked.append(complex(obj.users[-1].pos))
+        elif t == 'B':      # add_border_user(angle, ratio)
+            obj.add_border_user(op[1], float(op[2]))
+            tracked.append(complex(obj.users[-1].pos))
+        elif t == 'S':      # one random user in sector k (scripted draws)
+            with scripted_random(op[2]):
+                try:
+                    obj.add_random_user_in_sector(op[1] + 1, None, 0.0)
+                    tracked.append(complex(obj.users[-1].pos))
+                except StreamEnd:
+                    pass
+        elif t == 'D':
+            obj.delete_all_users()
+            tracked = []
+        elif t == 'X':
+            before = observables(obj, wrap)
+            got, argchange = rejected_call(cell, obj, wrap, op, size0)
+            after = observables(obj, wrap)
+            if check is not None and argchange is not None:
+                check('rejected:%s:argument-changed' % op[1], argchange)
+            if check is not None:
+                if got != EXPECTED_ERROR[op[1]] and not (op[1] == 'add_user_not_a_node' and got == 'AttributeError'):
+                    check('rejected:%s:not-rejected' % op[1], 'call %r gave %r, expected %s' % (op, got, EXPECTED_ERROR[op[1]]))
+                elif before != after:
+                    k = [j for j, (x, y) in enumerate(zip(before, after)) if x != y]
+                    check('rejected:%s:object-changed' % op[1],
+                          'the rejected call %r changed the object (observable %s: %r -> %r)' % (
+                              op, k[:1], before[k[0]] if k else None, after[k[0]] if k else None))
+        if t in MOVE_OPS:
+            d = complex(obj.pos) - pos_before
+            tracked = [u + d for u in tracked]
+    return obj, wrap, tracked
+
+
+def inradius(spec):
+    """radius of a disc around the centre that is inside the shape"""
+    k = spec['kind']
+    if k == 'hex':
+        return spec['R'] * math.sqrt(3) / 2
+    if k == 'sec3':
+        return spec['R'] / math.sqrt(3)
+    if k == 'square':
+        return spec['side'] / 2
+    if k == 'rect':
+        a, b = cx(spec['first']), cx(spec['second'])
+        return min(abs(a.real - b.real), abs(a.imag - b.imag)) / 2
+    raise ValueError(k)
 
 
 def cyc_close(got, ref, tol):
@@ -736,29 +894,46 @@ def cyc_close(got, ref, tol):
     return len(got) == n and any(all(abs(got[(i + s) % n] - ref[i]) <= tol for i in range(n)) for s in range(n))
 
 
+def hist_ops_class(case):
+    """which mutators the history used (part of the failure class: computed from the input)"""
+    kinds = sorted({op[0] for op in case['ops'] if op[0] in 'PMQRTW'})
+    return '+'.join(kinds) if kinds else 'none'
+
+
 def o_history(case):
-    """after ANY history of pos / radius / rotation setter calls a cell answers every query like a
-    freshly constructed cell with the current attributes; users placed afterwards (whole cell and
-    per sector) are inside the CURRENT cell / sector and respect the minimum distance"""
+    """after ANY history of mutator calls (setters, move_by_* helpers, user additions / deletions, rejected
+    calls) a cell answers every query like a freshly constructed cell with the current attributes; its users
+    have followed every move; rejected calls changed nothing; users placed afterwards (whole cell and per
+    sector) are inside the CURRENT cell / sector and respect the minimum distance"""
     shapes, cell, _ = _mods()
     kind = hist_kind(case)
-    obj, wrap = hist_build(case)
+    found = []
+    obj, wrap, tracked = hist_build(case, check=lambda c, d: found.append((c, d)))
+    name = ('wrap:' if wrap is not None else '') + kind
+    if found:
+        return 'history:%s:%s' % (name, found[0][0]), found[0][1]
     pos, R, rot, wpos = hist_current(case)
     tspec = hist_current_spec(case)
     cspec = tspec['inner'] if tspec['kind'] == 'wrap' else tspec
     target = wrap if wrap is not None else obj
-    name = ('wrap:' if wrap is not None else '') + kind
     sc = spec_scale(tspec)
-    tol = TOL * sc + 1e-9 * shape_size(cspec)
+    tol = TOL * sc
+    sfx = ':after=' + hist_ops_class(case) + scale_class(tspec)
 
     def cls(what):
-        return 'history:%s:%s' % (name, what)
+        return 'history:%s:%s%s' % (name, what, sfx)
 
     # stored attributes are the ones written last
-    if abs(complex(obj.pos) - pos) > tol or abs(obj.radius - R) > 1e-12 * max(1.0, R) or \
-            abs(complex(obj.rotation).real - rot) > 1e-12 * max(1.0, abs(rot)):
-        return cls('attributes'), 'pos/radius/rotation read back %r %r %r, written %r %r %r' % (
+    if abs(complex(obj.pos) - pos) > tol or abs(obj.radius - R) > 1e-12 * R or \
+            abs(complex(obj.rotation).real - rot) > 1e-12 * abs(rot):
+        return cls('attributes'), 'pos/radius/rotation read back %r %r %r, expected %r %r %r' % (
             obj.pos, obj.radius, obj.rotation, pos, R, rot)
+    # the users have followed every move of the cell
+    if kind != 'rect':
+        got_users = [complex(u.pos) for u in obj.users]
+        if len(got_users) != len(tracked) or any(abs(a - b) > tol for a, b in zip(got_users, tracked)):
+            return cls('users-did-not-follow'), 'users at %s, expected %s (every user moves with its cell)' % (
+                got_users[:3], tracked[:3])
     fresh = make_shape(tspec)
     # vertices: the polygon of the definition with the current attributes, and the fresh object's
     ref = ref_vertices(tspec)
@@ -773,14 +948,14 @@ def o_history(case):
         for k, (sec, fs) in enumerate(zip([obj._sec1, obj._sec2, obj._sec3], [fsec._sec1, fsec._sec2, fsec._sec3])):
             sspec = {'kind': 'sector', 'R': R, 'rot': rot, 'pos': c2(pos), 'k': k}
             centre = pos + R / math.sqrt(3) * cis(rot + SEC_ANGLE[k])
-            if abs(sec.radius - R / math.sqrt(3)) > 1e-9 * max(1.0, R):
+            if abs(sec.radius - R / math.sqrt(3)) > 1e-9 * R:
                 return cls('sector-radius'), 'sector %d has radius %r, the cell radius %r gives %r' % (
                     k + 1, sec.radius, R, R / math.sqrt(3))
             if abs(complex(sec.pos) - centre) > tol:
                 return cls('sector-position'), 'sector %d at %r, expected %r' % (k + 1, sec.pos, centre)
             if not cyc_close([complex(v) for v in np.asarray(sec.vertices)], ref_vertices(sspec), tol):
                 return cls('sector-vertices'), 'sector %d is not the sector hexagon of the current cell' % (k + 1)
-            if abs(complex(sec.pos) - complex(fs.pos)) > tol or abs(sec.radius - fs.radius) > 1e-9 * max(1.0, R):
+            if abs(complex(sec.pos) - complex(fs.pos)) > tol or abs(sec.radius - fs.radius) > 1e-9 * R:
                 return cls('sector-position'), 'sector %d differs from a freshly constructed cell' % (k + 1)
     # containment
     for q in case['queries']:
@@ -806,12 +981,6 @@ def o_history(case):
             return cls('border'), 'angle %r: border point differs from a freshly constructed object' % ang
     if kind == 'rect' or wrap is not None:
         return None
-    # a user added before a pure move follows the cell
-    if case.get('pre_user') and all(op[0] == 'P' for op in case['ops']):
-        pos0, R0, rot0 = hist_initial(case)
-        exp = pos + 0.2 * shape_size(case['init']) * cis(rot0 + 17.0)
-        if abs(complex(obj.users[0].pos) - exp) > tol:
-            return cls('user-not-moved'), 'user at %r after the move, expected %r' % (obj.users[0].pos, exp)
     # random users, whole cell
     ratio = case['ratio']
     cref = ref_vertices(cspec)
@@ -857,6 +1026,925 @@ def o_history(case):
     return None
 
 
+# ------------------------------------------------------------------ R1 element types, R2 layout, R3 aliasing
+NP_TYPES = {'int8': np.int8, 'uint8': np.uint8, 'int16': np.int16, 'uint16': np.uint16, 'int32': np.int32,
+            'int64': np.int64, 'float16': np.float16, 'float32': np.float32, 'float64': np.float64,
+            'complex64': np.complex64, 'complex128': np.complex128}
+INT_TYPES = ['int', 'int8', 'uint8', 'int16', 'uint16', 'int32', 'int64']
+REAL_TYPES = INT_TYPES + ['float', 'float16', 'float32', 'float64']
+TYPE_EPS = {'float16': 4e-3, 'float32': 2e-6, 'complex64': 2e-6}
+
+
+def fits(v, t):
+    """can the value be stored exactly in the type?"""
+    if isinstance(v, complex) and t not in ('complex', 'complex64', 'complex128'):
+        if v.imag != 0:
+            return False
+        v = v.real
+    if t in ('complex', 'complex64', 'complex128', 'float', 'float64'):
+        return True
+    if t == 'int':
+        return float(v) == int(v)
+    if t in ('float16', 'float32'):
+        return float(NP_TYPES[t](v)) == float(v)
+    info = np.iinfo(NP_TYPES[t])
+    return float(v) == int(v) and info.min <= int(v) <= info.max
+
+
+def cast(v, t):
+    """the same VALUE as another element type"""
+    if t == 'float':
+        return float(v.real if isinstance(v, complex) else v)
+    if t == 'int':
+        return int(v.real if isinstance(v, complex) else v)
+    if t == 'complex':
+        return complex(v)
+    if t in ('complex64', 'complex128'):
+        return NP_TYPES[t](v)
+    return NP_TYPES[t](v.real if isinstance(v, complex) else v)
+
+
+def cast_seq(vals, t):
+    """`arr:<dtype>`, `list`, `tuple` containers of the same values"""
+    if t == 'list':
+        return list(vals)
+    if t == 'tuple':
+        return tuple(vals)
+    return np.array(vals, dtype=NP_TYPES[t[4:]])
+
+
+def type_tol(t):
+    t = t[4:] if t.startswith('arr:') else t
+    return TYPE_EPS.get(t, TOL)
+
+
+def gen_int_spec(rng, kind):
+    """a shape whose numbers are small integers, so that every element type can hold them"""
+    pos = [float(rng.randint(0, 100)), 0.0] if rng.chance(0.5) else [float(rng.randint(-100, 100)), float(rng.randint(-100, 100))]
+    R = float(rng.choice([1, 2, 3, 5, 10, 100, 120, 200]))
+    rot = float(rng.choice([0, 15, 20, 30, 45, 90, 100, 120, -15, -30, -90, -120, 180, 200, 250, 360, -720]))
+    if kind in ('hex', 'sec3', 'hexshape'):
+        return {'kind': kind, 'R': R, 'rot': rot, 'pos': pos}
+    if kind == 'square':
+        return {'kind': kind, 'side': R, 'rot': rot, 'pos': pos}
+    if kind == 'circle':
+        return {'kind': kind, 'R': R, 'pos': pos}
+    raise ValueError(kind)
+
+
+def make_shape_typed(spec, param, t):
+    """the real object with ONE constructor argument given as another element type"""
+    shapes, cell, _ = _mods()
+    k = spec['kind']
+    pos = cx(spec['pos'])
+    size = spec['side'] if k == 'square' else spec['R']
+    rot = spec.get('rot', 0.0)
+    if param == 'pos':
+        pos = cast(pos, t)
+    elif param == 'size':
+        size = cast(size, t)
+    elif param == 'rot':
+        rot = cast(rot, t)
+    if k == 'hex':
+        return cell.Cell(pos, size, rotation=rot)
+    if k == 'hexshape':
+        return shapes.Hexagon(pos, size, rot)
+    if k == 'sec3':
+        return cell.Cell3Sec(pos, size, rotation=rot)
+    if k == 'square':
+        return cell.CellSquare(pos, size, rotation=rot)
+    if k == 'circle':
+        return shapes.Circle(pos, size)
+    raise ValueError(k)
+
+
+def quiet():
+    import warnings
+    c = warnings.catch_warnings()
+    c.__enter__()
+    warnings.simplefilter('ignore')
+    return c
+
+
+def o_types(case):
+    """R1: the same VALUES as another element type give the same cell: vertices, sector cells, containment,
+    border points, users, cluster centres, point processes, rotated positions; float results are never
+    truncated to an integer type"""
+    shapes, cell, pp = _mods()
+    w = quiet()
+    try:
+        return _o_types(case, shapes, cell, pp)
+    except StreamEnd:
+        return None
+    except Exception as e:
+        return ('types:%s:%s=%s:raises:%s' % (case['api'], case['param'], case['type'], type(e).__name__), repr(e)[:200])
+    finally:
+        w.__exit__(None, None, None)
+
+
+def _o_types(case, shapes, cell, pp):
+    api, param, t = case['api'], case['param'], case['type']
+    cls = 'types:%s:%s=%s' % (api, param, t)
+    eps = type_tol(t)
+    if api in ('shape', 'setter'):
+        spec = case['spec']
+        sc = shape_size(spec) + abs(cx(spec['pos']))
+        tol = eps * sc
+        twin = make_shape(spec)
+        if api == 'shape':
+            obj = make_shape_typed(spec, param, t) if param in ('pos', 'size', 'rot') else make_shape(spec)
+        else:   # the attribute is written through the setter / move helper with the other type
+            start = dict(spec)
+            if param == 'pos':
+                start['pos'] = [spec['pos'][0] + 7.0, spec['pos'][1]]
+            elif param in ('move', 'polar'):
+                start['pos'] = [spec['pos'][0] - 4.0, spec['pos'][1]]
+            elif param == 'size':
+                start['side' if spec['kind'] == 'square' else 'R'] = (spec['side'] if spec['kind'] == 'square' else spec['R']) * 3.0
+            elif param == 'rot':
+                start['rot'] = spec['rot'] + 50.0
+            obj = make_shape(start)
+            if param == 'pos':
+                obj.pos = cast(cx(spec['pos']), t)
+            elif param == 'move':
+                obj.move_by_relative_coordinate(cast(complex(4.0), t))
+            elif param == 'polar':
+                obj.move_by_relative_polar_coordinate(cast(4.0, t), 0 if t in INT_TYPES else cast(0.0, t))
+            elif param == 'size':
+                if spec['kind'] == 'square':       # the radius of a square is its half diagonal: write 5 into both
+                    obj = make_shape(spec)
+                    twin.radius = 5.0
+                    obj.radius = cast(5.0, t)
+                else:
+                    obj.radius = cast(spec['R'], t)
+            elif param == 'rot':
+                obj.rotation = cast(spec['rot'], t)
+        v1 = np.asarray(obj.vertices)
+        v0 = np.asarray(twin.vertices)
+        if not np.iscomplexobj(v1) or v1.dtype != np.complex128:
+            return cls, 'vertices have dtype %s' % v1.dtype
+        if v1.shape != v0.shape or np.max(np.abs(v1 - v0)) > tol:
+            return cls, 'vertices %s differ from those of the float64 twin %s' % (v1[:3], v0[:3])
+        if spec['kind'] == 'sec3':
+            for a, b in zip((obj._sec1, obj._sec2, obj._sec3), (twin._sec1, twin._sec2, twin._sec3)):
+                if abs(complex(a.pos) - complex(b.pos)) > tol or abs(float(a.radius) - float(b.radius)) > tol or \
+                        not np.allclose(np.asarray(a.vertices), np.asarray(b.vertices), rtol=0, atol=tol):
+                    return cls, 'sector cell (pos %r, radius %r, rotation %r) differs from the twin\'s (%r, %r, %r)' % (
+                        a.pos, a.radius, a.rotation, b.pos, b.radius, b.rotation)
+        ref = [complex(z) for z in v0]
+        for q in case['queries']:
+            p = cx(q)
+            pq = cast(p, t) if param == 'q' else p
+            if base_kind(spec) == 'circle':
+                margin = abs(abs(p - cx(spec['pos'])) - spec['R'])
+            else:
+                margin = boundary_dist(ref, p)
+            if margin < 10 * tol:
+                continue
+            if bool(obj.is_point_inside_shape(pq)) != bool(twin.is_point_inside_shape(p)):
+                return cls, 'is_point_inside_shape(%r) differs from the float64 twin' % (pq,)
+        for ang, ratio in case['angles']:
+            a = cast(ang, t) if param == 'angle' else ang
+            r = cast(ratio, t) if param == 'ratio' else ratio
+            b1 = complex(obj.get_border_point(a, r))
+            b0 = complex(twin.get_border_point(ang, ratio))
+            if abs(b1 - b0) > tol:
+                return cls, 'get_border_point(%r, %r) = %r, the float64 twin gives %r' % (a, r, b1, b0)
+        if spec['kind'] in ('hex', 'sec3', 'square'):
+            md = cast(case['ratio_md'], t) if param == 'min_dist' else case['ratio_md']
+            with scripted_random(case['draws']):
+                try:
+                    obj.add_random_user(None, md)
+                    u1 = complex(obj.users[-1].pos)
+                except StreamEnd:
+                    u1 = None
+            with scripted_random(case['draws']):
+                try:
+                    twin.add_random_user(None, case['ratio_md'])
+                    u0 = complex(twin.users[-1].pos)
+                except StreamEnd:
+                    u0 = None
+            if eps == TOL and ((u1 is None) != (u0 is None) or (u1 is not None and abs(u1 - u0) > tol)):
+                return cls, 'add_random_user placed the user at %r, the float64 twin at %r' % (u1, u0)
+        return None
+    if api == 'border_user':
+        spec = case['spec']
+        sc = shape_size(spec) + abs(cx(spec['pos']))
+        tol = eps * sc
+        obj, twin = make_shape(spec), make_shape(spec)
+        angs = [a for a, _ in case['angles']]
+        rats = [float(r) for _, r in case['angles']]
+        twin.add_border_user(angs, rats)
+        if param == 'angles':
+            obj.add_border_user(cast_seq(angs, t), rats)
+        elif param == 'ratios':
+            obj.add_border_user(angs, cast_seq(rats, t))
+        elif param == 'angle':       # scalar angle and scalar ratio, one call per user
+            for a, r in zip(angs, rats):
+                obj.add_border_user(cast(a, t), r)
+        elif param == 'ratio':
+            for a, r in zip(angs, rats):
+                obj.add_border_user(a, cast(r, t))
+        u1 = [complex(u.pos) for u in obj.users]
+        u0 = [complex(u.pos) for u in twin.users]
+        if len(u1) != len(u0) or any(abs(a - b) > tol for a, b in zip(u1, u0)):
+            return cls, 'border users at %s, the float64 twin has them at %s' % (u1[:3], u0[:3])
+        return None
+    if api == 'cluster':
+        n, R, rot, ctype = case['n'], case['R'], case['rot'], case['ctype']
+        pos = cx(case['pos'])
+        tol = eps * (6 * R + abs(pos))
+        twin = cell.Cluster(cell_radius=R, num_cells=n, pos=pos, cell_type=ctype, rotation=rot)
+        kw = {'cell_radius': R, 'num_cells': n, 'pos': pos, 'rotation': rot}
+        if param in kw:
+            kw[param] = cast(kw[param], t)
+        obj = cell.Cluster(cell_type=ctype, **kw)
+        c1 = [complex(c.pos) for c in obj]
+        c0 = [complex(c.pos) for c in twin]
+        if len(c1) != len(c0) or any(abs(a - b) > tol for a, b in zip(c1, c0)):
+            return cls, 'cell centres %s, the float64 twin has %s' % (c1[:3], c0[:3])
+        for a, b in zip(obj, twin):
+            if not np.allclose(np.asarray(a.vertices), np.asarray(b.vertices), rtol=0, atol=tol):
+                return cls, 'cell %s has vertices %s, the twin\'s cell %s' % (a.id, np.asarray(a.vertices)[:2], np.asarray(b.vertices)[:2])
+            if ctype == '3sec' and not np.allclose(np.asarray(a._sec1.vertices), np.asarray(b._sec1.vertices), rtol=0, atol=tol):
+                return cls, 'sector of cell %s (rotation %r) differs from the twin\'s (rotation %r)' % (
+                    a.id, a._sec1.rotation, b._sec1.rotation)
+        ids = case['ids']
+        st = np.random.get_state()
+        try:
+            np.random.seed(case['npseed'])
+            twin.add_random_users(ids, case['num_users'], None, case['min_dist'])
+            twin.add_border_users(ids, case['angle'], case['bratio'])
+            np.random.seed(case['npseed'])
+            a_ids, a_num, a_md, a_ang, a_br = ids, case['num_users'], case['min_dist'], case['angle'], case['bratio']
+            if param == 'cell_ids':
+                a_ids = cast_seq(ids, t) if t.startswith('arr:') or t in ('list', 'tuple') else cast(ids[0], t)
+                if not (t.startswith('arr:') or t in ('list', 'tuple')):
+                    np.random.seed(case['npseed'])
+                    twin = cell.Cluster(cell_radius=R, num_cells=n, pos=pos, cell_type=ctype, rotation=rot)
+                    twin.add_random_users(ids[0], case['num_users'], None, case['min_dist'])
+                    twin.add_border_users(ids[0], case['angle'], case['bratio'])
+                    np.random.seed(case['npseed'])
+            elif param == 'num_users':
+                a_num = cast(case['num_users'], t)
+            elif param == 'min_dist':
+                a_md = cast(case['min_dist'], t)
+            elif param == 'angle':
+                a_ang = cast(case['angle'], t)
+            elif param == 'bratio':
+                a_br = cast(case['bratio'], t)
+            obj.add_random_users(a_ids, a_num, None, a_md)
+            obj.add_border_users(a_ids, a_ang, a_br)
+        finally:
+            np.random.set_state(st)
+        u1 = [complex(u.pos) for c in obj for u in c.users]
+        u0 = [complex(u.pos) for c in twin for u in c.users]
+        if len(u1) != len(u0) or any(abs(a - b) > tol for a, b in zip(u1, u0)):
+            return cls, '%d users at %s, the float64 twin has %d at %s' % (len(u1), u1[:2], len(u0), u0[:2])
+        M1 = np.asarray(obj.calc_dist_all_users_to_each_cell())
+        if u1 and (M1.dtype.kind != 'f' or M1.shape != (len(u1), n)):
+            return cls, 'distance matrix dtype %s shape %s' % (M1.dtype, M1.shape)
+        return None
+    if api == 'pointprocess':
+        n = case['n']
+        draws = case['draws']
+        if case['what'] == 'circle':
+            args0 = [n, case['rmax'], case['rmin']]
+            f = pp.generate_random_points_in_circle
+            names = ['num_points', 'max_radius', 'min_radius']
+            sc = case['rmax']
+        else:
+            args0 = [n, case['w'], case['h']]
+            f = pp.generate_random_points_in_rectangle
+            names = ['num_points', 'width', 'height']
+            sc = max(case['w'], case['h'])
+        args1 = list(args0)
+        args1[names.index(param)] = cast(args0[names.index(param)], t)
+        with scripted_random(draws):
+            p0 = np.asarray(f(*args0))
+        with scripted_random(draws):
+            p1 = np.asarray(f(*args1))
+        if p1.shape != p0.shape or not np.iscomplexobj(p1) or (p0.size and np.max(np.abs(p1 - p0)) > eps * sc):
+            return cls, 'points %s (dtype %s), the float64 twin gives %s' % (p1[:3], p1.dtype, p0[:3])
+        return None
+    if api == 'rotated':
+        vals = case['values']
+        ang = case['angle']
+        twin = np.asarray(shapes.Shape.calc_rotated_pos(np.array(vals, dtype=complex), float(ang)))
+        if param == 'cur_pos':
+            arg = cast_seq([v.real for v in map(complex, vals)] if not t.endswith(('complex64', 'complex128')) else vals, t)
+            before = np.array(arg, copy=True)
+            out = np.asarray(shapes.Shape.calc_rotated_pos(arg, float(ang)))
+            twin = np.asarray(shapes.Shape.calc_rotated_pos(np.array(before, dtype=complex), float(ang)))
+            if not np.array_equal(np.asarray(arg), before) or np.asarray(arg).dtype != before.dtype:
+                return cls, 'calc_rotated_pos changed its input'
+        else:
+            out = np.asarray(shapes.Shape.calc_rotated_pos(np.array(vals, dtype=complex), cast(ang, t)))
+        if out.shape != twin.shape or not np.iscomplexobj(out) or np.max(np.abs(out - twin)) > eps * max(1e-300, np.max(np.abs(twin))):
+            return cls, 'rotated positions %s (dtype %s), the complex128 twin gives %s' % (out[:3], out.dtype, twin[:3])
+        return None
+    raise KeyError(api)
+
+
+def gen_types_case(rng, api=None, param=None, t=None, kind=None):
+    api = api or rng.choice(['shape', 'shape', 'setter', 'border_user', 'cluster', 'pointprocess', 'rotated'])
+    for _ in range(200):
+        case = _gen_types_case(rng, api, param, t, kind)
+        if case is not None:
+            return case
+    raise RuntimeError('no representable case for %s %s %s' % (api, param, t))
+
+
+def _gen_types_case(rng, api, param, t, kind=None):
+    if api in ('shape', 'setter'):
+        kind = kind or rng.choice(['hex', 'sec3', 'sec3', 'square', 'circle'] if api == 'shape' else ['hex', 'sec3', 'sec3', 'square'])
+        spec = gen_int_spec(rng, kind)
+        params = (['pos', 'size', 'rot', 'q', 'angle', 'ratio', 'min_dist'] if api == 'shape' else
+                  ['pos', 'size', 'rot', 'move', 'polar'])
+        if kind == 'circle':
+            params = ['pos', 'size', 'q', 'angle', 'ratio']
+        param = param or rng.choice(params)
+        if param in ('pos', 'q', 'move'):
+            t = t or rng.choice(['complex', 'complex64', 'complex128', 'int', 'float', 'uint8', 'int8', 'int16', 'float32', 'int64'])
+        elif param == 'ratio':
+            t = t or rng.choice(['int', 'float32', 'float16', 'float64', 'uint8', 'int64'])
+        else:
+            t = t or rng.choice(REAL_TYPES)
+        size = spec['side'] if kind == 'square' else spec['R']
+        angles = [[float(rng.choice([0, 30, 45, 60, 90, 100, 120, 200, 250, -30, -120])), rng.choice([1.0, 0.5, 0.0])]
+                  for _ in range(4)]
+        if param == 'ratio':
+            angles = [[a, rng.choice([0.0, 1.0] if t in INT_TYPES else [0.5, 0.25, 1.0, 0.0])] for a, _ in angles]
+        if param == 'q' and t not in ('complex', 'complex64', 'complex128'):
+            spec['pos'] = [spec['pos'][0], 0.0]          # real query points for the real element types
+            queries = [[spec['pos'][0] + rng.randint(-6, 6) * size / 4, 0.0] for _ in range(6)]
+        else:
+            queries = [c2(cx(spec['pos']) + complex(rng.randint(-2, 2) * size, rng.randint(-2, 2) * size) / 2) for _ in range(6)]
+        md = rng.choice([0.0, 0.5]) if param != 'min_dist' or t not in INT_TYPES else 0.0
+        vals = {'pos': cx(spec['pos']), 'size': size, 'rot': spec.get('rot', 0.0), 'move': 4.0, 'polar': 4.0, 'min_dist': md}
+        if param in vals and not fits(vals[param], t):
+            return None
+        if param == 'q' and not all(fits(cx(q), t) for q in queries):
+            return None
+        if param == 'angle' and not all(fits(a, t) for a, _ in angles):
+            return None
+        if param == 'ratio' and not all(fits(r, t) for _, r in angles):
+            return None
+        return {'api': api, 'param': param, 'type': t, 'spec': spec, 'queries': queries, 'angles': angles,
+                'ratio_md': md, 'draws': gen_draws(rng, 40)}
+    if api == 'border_user':
+        spec = gen_int_spec(rng, kind or rng.choice(['hex', 'sec3', 'square']))
+        param = param or rng.choice(['angles', 'ratios', 'angle', 'ratio'])
+        if param == 'angles':
+            t = t or rng.choice(['list', 'tuple', 'arr:int16', 'arr:int32', 'arr:int64', 'arr:uint8', 'arr:float32', 'arr:float64'])
+        elif param == 'ratios':
+            t = t or rng.choice(['list', 'tuple', 'arr:float32', 'arr:float64', 'arr:float16'])
+        elif param == 'angle':
+            t = t or rng.choice(REAL_TYPES)
+        else:
+            t = t or rng.choice(['int', 'float', 'float16', 'float32', 'float64', 'uint8', 'int32'])
+        ratios = [0.0, 1.0] if (t in INT_TYPES and param == 'ratio') else [0.5, 0.25, 1.0, 0.0]
+        angles = [[float(rng.choice([0, 30, 45, 60, 90, 100, 120, 200, 250])), rng.choice(ratios)] for _ in range(3)]
+        if param == 'angle' and not all(fits(a, t) for a, _ in angles):
+            return None
+        if param == 'angles' and t.startswith('arr:') and not all(fits(a, t[4:]) for a, _ in angles):
+            return None
+        return {'api': api, 'param': param, 'type': t, 'spec': spec, 'angles': angles}
+    if api == 'cluster':
+        ctype = kind or rng.choice(['simple', '3sec', 'square'])
+        n = rng.choice([1, 4, 9]) if ctype == 'square' else rng.choice([1, 3, 7, 19])
+        param = param or rng.choice(['cell_radius', 'num_cells', 'pos', 'rotation', 'cell_ids', 'num_users', 'min_dist', 'angle', 'bratio'])
+        case = {'api': api, 'param': param, 'ctype': ctype, 'n': n, 'R': float(rng.choice([1, 2, 5, 100])),
+                'rot': float(rng.choice([0, 20, 30, 90, 100, 200, -30, -120])),
+                'pos': [float(rng.randint(0, 50)), 0.0] if rng.chance(0.6) else [float(rng.randint(-50, 50)), float(rng.randint(-50, 50))],
+                'ids': sorted({rng.randint(1, n) for _ in range(2)}), 'num_users': rng.randint(0, 2),
+                'min_dist': rng.choice([0.0, 0.5]), 'angle': float(rng.choice([0, 30, 90, 100, 200])),
+                'bratio': rng.choice([0.5, 0.25, 1.0]), 'npseed': rng.below(2 ** 31)}
+        if param == 'cell_ids':
+            t = t or rng.choice(['list', 'tuple', 'arr:int16', 'arr:int64', 'arr:uint8', 'int', 'int8', 'uint8', 'int16', 'int64'])
+        elif param == 'num_cells' or param == 'num_users':
+            t = t or rng.choice(INT_TYPES)
+        elif param == 'pos':
+            t = t or rng.choice(['complex', 'complex64', 'int', 'float', 'uint8', 'int16', 'float32'])
+        elif param == 'bratio':
+            t = t or rng.choice(['float', 'float32', 'float64', 'int', 'uint8'])
+            if t in INT_TYPES:
+                case['bratio'] = 1.0
+        elif param == 'min_dist':
+            t = t or rng.choice(['float', 'int', 'float32', 'float64', 'uint8'])
+            if t in INT_TYPES:
+                case['min_dist'] = 0.0
+        else:
+            t = t or rng.choice(REAL_TYPES)
+        case['type'] = t
+        key = {'cell_radius': 'R', 'num_cells': 'n', 'pos': 'pos', 'rotation': 'rot', 'num_users': 'num_users',
+               'min_dist': 'min_dist', 'angle': 'angle', 'bratio': 'bratio'}.get(param)
+        if key is not None:
+            v = cx(case[key]) if key == 'pos' else case[key]
+            if not fits(v, t):
+                return None
+        return case
+    if api == 'pointprocess':
+        what = ('circle' if param in ('max_radius', 'min_radius') else 'rectangle' if param in ('width', 'height')
+                else rng.choice(['circle', 'rectangle']))
+        n = rng.randint(0, 6)
+        case = {'api': api, 'what': what, 'n': n, 'draws': [rng.uniform() for _ in range(2 * n)]}
+        if what == 'circle':
+            case.update(rmax=float(rng.choice([2, 5, 100])), rmin=float(rng.choice([0, 1])))
+            param = param or rng.choice(['num_points', 'max_radius', 'min_radius'])
+        else:
+            case.update(w=float(rng.choice([1, 4, 100])), h=float(rng.choice([1, 2, 50])))
+            param = param or rng.choice(['num_points', 'width', 'height'])
+        t = t or (rng.choice(INT_TYPES) if param == 'num_points' else rng.choice(REAL_TYPES))
+        case.update(param=param, type=t)
+        return case
+    if api == 'rotated':
+        param = param or rng.choice(['cur_pos', 'angle'])
+        if param == 'cur_pos':
+            t = t or rng.choice(['arr:int16', 'arr:int32', 'arr:int64', 'arr:uint8', 'arr:float32', 'arr:complex64', 'arr:complex128'])
+        else:
+            t = t or rng.choice(REAL_TYPES)
+        lo = 0 if 'uint' in t else -100
+        vals = [complex(rng.randint(lo, 100), rng.randint(lo, 100) if t.endswith(('complex64', 'complex128')) or param == 'angle' else 0)
+                for _ in range(rng.randint(1, 5))]
+        ang = float(rng.choice([0, 30, 90, 100, 120, 180, 200, 250] + ([] if 'uint' in t else [-30, -90, -120])))
+        if param == 'angle' and not fits(ang, t):
+            return None
+        return {'api': api, 'param': param, 'type': t, 'values': vals, 'angle': ang}
+    raise KeyError(api)
+
+
+def json_types_case(case):
+    """complex values are stored as pairs in replay files"""
+    c = dict(case)
+    if 'values' in c:
+        c['values'] = [[v.real, v.imag] if isinstance(v, complex) else v for v in c['values']]
+    return c
+
+
+def o_types_replayable(case):
+    c = dict(case)
+    if 'values' in c:
+        c['values'] = [complex(v[0], v[1]) if isinstance(v, (list, tuple)) else v for v in c['values']]
+    return o_types(c)
+
+
+def layout_variants(a):
+    """views / containers with the same logical content as the 1-D array `a` (R2)"""
+    a = np.asarray(a)
+    out = {}
+    big = np.empty(2 * a.size + 1, dtype=a.dtype)
+    big[:] = 77
+    big[0:2 * a.size:2] = a
+    out['strided'] = big[0:2 * a.size:2]
+    out['reversed'] = a[::-1].copy()[::-1]
+    two = np.zeros((max(a.size, 1), 3), dtype=a.dtype, order='C')
+    two[:a.size, 1] = a
+    out['column-of-2d'] = two[:a.size, 1]
+    f2 = np.asfortranarray(np.tile(a.reshape(1, -1), (2, 1)))
+    out['row-of-fortran'] = f2[1, :]
+    if a.size and np.all(a == a.flat[0]):
+        out['broadcast'] = np.broadcast_to(a.flat[0], a.shape)
+    ro = a.copy()
+    ro.setflags(write=False)
+    out['read-only'] = ro
+    return out
+
+
+def o_layout(case):
+    """R2/R3: non-contiguous, reversed, broadcast, read-only, 0-d, empty and N-d array arguments give the results
+    of their C-contiguous copies, position by position, and the arguments are left untouched"""
+    shapes, cell, pp = _mods()
+    w = quiet()
+    try:
+        return _o_layout(case, shapes, cell, pp)
+    except Exception as e:
+        return 'layout:%s:%s:raises:%s' % (case['api'], case['variant'], type(e).__name__), repr(e)[:200]
+    finally:
+        w.__exit__(None, None, None)
+
+
+def _o_layout(case, shapes, cell, pp):
+    api, variant = case['api'], case['variant']
+    cls = 'layout:%s:%s' % (api, variant)
+
+    def snap(x):
+        return (np.array(x, copy=True), np.asarray(x).dtype, np.asarray(x).shape)
+
+    def same(x, s):
+        return np.asarray(x).dtype == s[1] and np.asarray(x).shape == s[2] and np.array_equal(np.asarray(x), s[0])
+
+    if api == 'add_border_user':
+        spec = case['spec']
+        tol = TOL * spec_scale(spec)
+        angs = np.array([a for a, _ in case['angles']], dtype=float)
+        rats = np.array([r for _, r in case['angles']], dtype=float)
+        twin = make_shape(spec)
+        obj = make_shape(spec)
+        if variant == 'empty':
+            obj.add_border_user(np.array([]), np.array([]))
+            return None if len(obj.users) == 0 else (cls, 'users added for an empty angle array')
+        if variant == '0-d':
+            twin.add_border_user(float(angs[0]), float(rats[0]))
+            obj.add_border_user(np.array(angs[0]), float(rats[0]))
+        else:
+            twin.add_border_user(angs.copy(), rats.copy())
+            which = case.get('which', 'angles')
+            va = layout_variants(angs if which == 'angles' else rats).get(variant)
+            if va is None:
+                return None
+            s0 = snap(va)
+            if which == 'angles':
+                obj.add_border_user(va, rats.copy())
+            else:
+                obj.add_border_user(angs.copy(), va)
+            if not same(va, s0):
+                return 'aliasing:add_border_user:input-changed:' + variant, 'the %s array was modified' % which
+        u1 = [complex(u.pos) for u in obj.users]
+        u0 = [complex(u.pos) for u in twin.users]
+        if len(u1) != len(u0) or any(abs(a - b) > tol for a, b in zip(u1, u0)):
+            return cls, 'users at %s, the contiguous copy gives %s' % (u1[:3], u0[:3])
+        return None
+    if api == 'calc_rotated_pos':
+        A = np.array([complex(*v) for v in case['values']], dtype=complex).reshape(case['shape'])
+        ang = case['angle']
+        ref = np.asarray(shapes.Shape.calc_rotated_pos(np.ascontiguousarray(A).copy(), ang))
+        if variant == 'fortran':
+            arg = np.asfortranarray(A)
+        elif variant == 'transposed':
+            arg = np.ascontiguousarray(A.T).T
+        elif variant == 'strided':
+            big = np.zeros(A.shape[:-1] + (2 * A.shape[-1],), dtype=complex) if A.ndim else None
+            if big is None:
+                return None
+            big[..., ::2] = A
+            arg = big[..., ::2]
+        elif variant == 'reversed':
+            arg = A[..., ::-1].copy()[..., ::-1] if A.ndim else A
+        elif variant == 'read-only':
+            arg = A.copy()
+            arg.setflags(write=False)
+        elif variant == '0-d':
+            arg = np.array(A.flat[0])
+            ref = np.asarray(shapes.Shape.calc_rotated_pos(complex(A.flat[0]), ang))
+        elif variant == 'empty':
+            arg = np.zeros((0,) + A.shape[1:], dtype=complex)
+            ref = arg.copy()
+        else:
+            arg = A
+        s0 = snap(arg)
+        out = np.asarray(shapes.Shape.calc_rotated_pos(arg, ang))
+        if not same(arg, s0):
+            return 'aliasing:calc_rotated_pos:input-changed:' + variant, 'the input array was modified'
+        if out.shape != ref.shape or (out.size and np.max(np.abs(out - ref)) > 1e-12 * np.max(np.abs(ref))):
+            return cls, 'shape %s values %s, contiguous copy gives shape %s values %s' % (out.shape, out.ravel()[:3], ref.shape, ref.ravel()[:3])
+        if out.size and np.shares_memory(out, arg):
+            return 'aliasing:calc_rotated_pos:output-aliases-input:' + variant, 'the result shares memory with the argument'
+        return None
+    if api == 'from_complex_array_to_real_matrix':
+        a = np.array([complex(*v) for v in case['values']], dtype=complex)
+        ref = np.column_stack([a.real, a.imag]) if a.size else np.zeros((0, 2))
+        arg = layout_variants(a).get(variant, a.copy()) if variant != 'contiguous' else a.copy()
+        if variant == 'complex64':
+            arg = a.astype(np.complex64)
+        s0 = snap(arg)
+        out = np.asarray(shapes.from_complex_array_to_real_matrix(arg))
+        if not same(arg, s0):
+            return ('aliasing:from_complex_array_to_real_matrix:input-changed:' + variant,
+                    'the argument is now %s %s (it was complex with shape %s)' % (np.asarray(arg).dtype, np.asarray(arg).shape, s0[2]))
+        if out.shape != ref.shape or (out.size and np.max(np.abs(out - ref)) > 1e-6 * np.max(np.abs(ref))):
+            return cls, 'result %s, expected %s' % (out[:2], ref[:2])
+        return None
+    if api == 'cluster_ids':
+        n = case['n']
+        ids = np.array(case['ids'], dtype=int)
+        nums = np.array(case['nums'], dtype=int)
+        tw = cell.Cluster(1.5, n, cell_type=case['ctype'])
+        ob = cell.Cluster(1.5, n, cell_type=case['ctype'])
+        st = np.random.get_state()
+        try:
+            np.random.seed(case['npseed'])
+            tw.add_random_users(ids.copy(), nums.copy())
+            tw.add_border_users(ids.copy(), 30.0, 0.5)
+            np.random.seed(case['npseed'])
+            which = case.get('which', 'ids')
+            va = layout_variants(ids if which == 'ids' else nums).get(variant)
+            if va is None:
+                return None
+            s0 = snap(va)
+            ob.add_random_users(va if which == 'ids' else ids.copy(), nums.copy() if which == 'ids' else va)
+            ob.add_border_users(va if which == 'ids' else ids.copy(), 30.0, 0.5)
+        finally:
+            np.random.set_state(st)
+        if not same(va, s0):
+            return 'aliasing:Cluster.add_random_users:input-changed:' + variant, 'the %s array was modified' % which
+        u1 = [[complex(u.pos) for u in c.users] for c in ob]
+        u0 = [[complex(u.pos) for u in c.users] for c in tw]
+        if [len(x) for x in u1] != [len(x) for x in u0] or any(abs(a - b) > 1e-9 for x, y in zip(u1, u0) for a, b in zip(x, y)):
+            return cls, 'users per cell %s, the contiguous copy gives %s' % ([len(x) for x in u1], [len(x) for x in u0])
+        return None
+    raise KeyError(api)
+
+
+def gen_layout_case(rng, api=None, variant=None):
+    api = api or rng.choice(['add_border_user', 'calc_rotated_pos', 'calc_rotated_pos', 'from_complex_array_to_real_matrix', 'cluster_ids'])
+    if api == 'add_border_user':
+        spec = gen_spec(rng, ['hex', 'sec3', 'square'], 0)
+        same_val = rng.chance(0.3)
+        n = rng.randint(1, 5)
+        a0 = float(rng.randint(-24, 24) * 15)
+        angles = [[a0 if same_val else float(rng.randint(-24, 24) * 15 + rng.choice([0, 7])), rng.choice([0.5, 1.0, 0.25])]
+                  for _ in range(n)]
+        if same_val:
+            angles = [[a0, 0.5] for _ in range(n)]
+        variant = variant or rng.choice(['strided', 'reversed', 'column-of-2d', 'row-of-fortran', 'read-only', '0-d', 'empty']
+                                        + (['broadcast'] if same_val else []))
+        return {'api': api, 'variant': variant, 'spec': spec, 'angles': angles, 'which': rng.choice(['angles', 'ratios'])}
+    if api == 'calc_rotated_pos':
+        shape = rng.choice([[4], [3, 1], [1, 3], [2, 3], [2, 2, 2], [1], [5]])
+        n = int(np.prod(shape))
+        variant = variant or rng.choice(['fortran', 'transposed', 'strided', 'reversed', 'read-only', '0-d', 'empty', 'contiguous'])
+        return {'api': api, 'variant': variant, 'shape': shape, 'angle': gen_rot(rng),
+                'values': [[round(rng.uniform(-9, 9), 3), round(rng.uniform(-9, 9), 3)] for _ in range(n)]}
+    if api == 'from_complex_array_to_real_matrix':
+        n = rng.randint(0, 6)
+        variant = variant or rng.choice(['contiguous', 'strided', 'reversed', 'column-of-2d', 'row-of-fortran', 'complex64', 'read-only'])
+        return {'api': api, 'variant': variant,
+                'values': [[float(rng.randint(-9, 9)), float(rng.randint(-9, 9))] for _ in range(n)]}
+    ctype = rng.choice(['simple', '3sec', 'square'])
+    n = 9 if ctype == 'square' else 7
+    k = rng.randint(1, 4)
+    ids = [rng.randint(1, n) for _ in range(k)]
+    same_val = rng.chance(0.3)
+    nums = [1] * k if same_val else [rng.randint(0, 2) for _ in range(k)]
+    variant = variant or rng.choice(['strided', 'reversed', 'column-of-2d', 'row-of-fortran', 'read-only']
+                                    + (['broadcast'] if same_val else []))
+    which = 'nums' if variant == 'broadcast' else rng.choice(['ids', 'nums'])
+    return {'api': api, 'variant': variant, 'ctype': ctype, 'n': n, 'ids': ids, 'nums': nums, 'which': which,
+            'npseed': rng.below(2 ** 31)}
+
+
+def o_aliasing(case):
+    """R3: arrays handed out earlier stay as they were when later calls are made, writing into them does not
+    reach the object, and clusters of the same size do not share their (cached) positions"""
+    shapes, cell, _ = _mods()
+    what = case['what']
+    if what == 'vertices':
+        case2 = dict(case['history'])
+        obj, wrap, _ = hist_build(dict(case2, ops=[]))
+        target = wrap if wrap is not None else obj
+        v1 = target.vertices
+        b1 = target._get_vertex_positions()
+        keep, keepb = np.array(v1, copy=True), np.array(b1, copy=True)
+        obj2, wrap2, _ = hist_build(case2)          # an identical object goes through the history
+        # later calls on the SAME object
+        for op in case2['ops']:
+            if op[0] == 'P':
+                obj.pos = complex(op[1], op[2])
+            elif op[0] == 'R':
+                obj.radius = op[1]
+            elif op[0] == 'T':
+                obj.rotation = op[1]
+            elif op[0] == 'M':
+                obj.move_by_relative_coordinate(complex(op[1], op[2]))
+        target.get_border_point(10.0, 0.5)
+        target.is_point_inside_shape(complex(target.pos))
+        if not np.array_equal(np.asarray(v1), keep) or not np.array_equal(np.asarray(b1), keepb):
+            return 'aliasing:vertices:changed-by-later-calls', 'an array returned by `vertices` changed after later calls'
+        v2 = target.vertices
+        expect = np.array(v2, copy=True)
+        v2[...] = 1e300
+        target._get_vertex_positions()[...] = -1e300
+        v3 = np.asarray(target.vertices)
+        if not np.array_equal(v3, expect):
+            return 'aliasing:vertices:writable-internal-buffer', 'writing into the returned vertices changed the object'
+        return None
+    if what == 'cluster':
+        n, ctype = case['n'], case['ctype']
+        A = cell.Cluster(case['R1'], n, pos=cx(case['pos1']), cell_type=ctype, rotation=case['rot1'])
+        a0 = [complex(c.pos) for c in A]
+        va = [np.array(c.vertices, copy=True) for c in A]
+        B = cell.Cluster(case['R2'], n, pos=cx(case['pos2']), cell_type=ctype, rotation=case['rot2'])
+        B.add_random_users(1, 1)
+        if n == 19 and ctype != 'square':
+            B.create_wrap_around_cells()
+            B.create_wrap_around_cells()
+            if len(B._wrapped_cells) != 42:
+                return 'aliasing:cluster:wrap-repeated', '%d wrapped cells after calling create_wrap_around_cells twice' % len(B._wrapped_cells)
+        if [complex(c.pos) for c in A] != a0 or any(not np.array_equal(np.asarray(c.vertices), v) for c, v in zip(A, va)):
+            return 'aliasing:cluster:shared-positions', 'building a second cluster changed the cells of the first'
+        A2 = cell.Cluster(case['R1'], n, pos=cx(case['pos1']), cell_type=ctype, rotation=case['rot1'])
+        if any(abs(x - y) > 1e-12 * (abs(x) + case['R1']) for x, y in zip([complex(c.pos) for c in A2], a0)):
+            return 'aliasing:cluster:order-dependent', 'a cluster built after another one differs from the one built before'
+        st = np.random.get_state()
+        np.random.seed(case['npseed'])
+        try:
+            A.add_random_users(None, 1)
+        finally:
+            np.random.set_state(st)
+        M1 = A.calc_dist_all_users_to_each_cell()
+        keep = np.array(M1, copy=True)
+        A.add_border_users(1, 30.0, 0.5)
+        M2 = A.calc_dist_all_users_to_each_cell()
+        if not np.array_equal(M1, keep):
+            return 'aliasing:distmatrix:changed-by-later-calls', 'an earlier distance matrix changed'
+        e2 = np.array(M2, copy=True)
+        M2[...] = -1.0
+        if not np.array_equal(np.asarray(A.calc_dist_all_users_to_each_cell()), e2):
+            return 'aliasing:distmatrix:writable-internal-buffer', 'writing into the returned matrix changed later results'
+        return None
+    if what == 'wrap-shared':
+        # one cell wrapped twice: the wraps and the cell do not influence each other
+        inner = make_shape(case['spec'])
+        w1 = cell.CellWrap(cx(case['w1']), inner)
+        w2 = cell.CellWrap(cx(case['w2']), inner)
+        i0 = observables(inner)
+        v2 = np.array(w2.vertices, copy=True)
+        w1.pos = cx(case['w3'])
+        w1.move_by_relative_coordinate(1.0 + 2.0j)
+        try:
+            w1.radius = 3.0
+        except AttributeError:
+            pass
+        if observables(inner) != i0:
+            return 'aliasing:wrap:wrapped-cell-changed', 'moving a CellWrap changed the wrapped cell'
+        if not np.array_equal(np.asarray(w2.vertices), v2):
+            return 'aliasing:wrap:other-wrap-changed', 'moving one CellWrap changed another wrap of the same cell'
+        return None
+    raise KeyError(what)
+
+
+
+FIXED_TYPES = [('shape', 'rot', 'uint8', 'square'), ('shape', 'rot', 'uint8', 'sec3'), ('shape', 'rot', 'uint8', 'hex'),
+               ('shape', 'rot', 'int8', 'sec3'), ('shape', 'rot', 'uint16', 'square'), ('shape', 'size', 'uint8', 'hex'),
+               ('shape', 'size', 'uint8', 'sec3'), ('shape', 'size', 'uint8', 'square'), ('shape', 'size', 'uint16', 'hex'),
+               ('setter', 'rot', 'uint8', 'sec3'), ('setter', 'rot', 'uint8', 'square'), ('setter', 'rot', 'int8', 'sec3'),
+               ('setter', 'size', 'uint8', 'hex'), ('setter', 'size', 'uint8', 'square'), ('shape', 'pos', 'uint8', 'square'),
+               ('cluster', 'rotation', 'uint8', '3sec'), ('cluster', 'rotation', 'uint8', 'square'),
+               ('cluster', 'cell_radius', 'uint8', 'simple'), ('cluster', 'cell_radius', 'uint8', 'square'),
+               ('shape', 'rot', 'uint8'), ('shape', 'rot', 'int8'), ('shape', 'rot', 'int16'), ('shape', 'rot', 'float32'),
+               ('shape', 'size', 'uint8'), ('shape', 'size', 'int8'), ('shape', 'size', 'uint16'), ('shape', 'size', 'float16'),
+               ('shape', 'size', 'float32'), ('shape', 'size', 'int'), ('shape', 'pos', 'complex64'), ('shape', 'pos', 'int'),
+               ('shape', 'pos', 'uint8'), ('shape', 'q', 'float32'), ('shape', 'q', 'int'), ('shape', 'angle', 'int8'),
+               ('shape', 'angle', 'uint8'), ('shape', 'angle', 'float16'), ('shape', 'ratio', 'int'), ('shape', 'ratio', 'float32'),
+               ('shape', 'min_dist', 'int'), ('setter', 'rot', 'uint8'), ('setter', 'rot', 'int8'), ('setter', 'size', 'uint8'),
+               ('setter', 'pos', 'complex64'), ('setter', 'move', 'int8'), ('setter', 'polar', 'float32'),
+               ('border_user', 'ratio', 'int'), ('border_user', 'ratio', 'float32'), ('border_user', 'ratio', 'float16'),
+               ('border_user', 'ratio', 'float64'), ('border_user', 'angle', 'int16'), ('border_user', 'angle', 'uint8'),
+               ('border_user', 'angles', 'arr:int16'), ('border_user', 'angles', 'list'), ('border_user', 'angles', 'tuple'),
+               ('border_user', 'ratios', 'arr:float32'), ('border_user', 'ratios', 'tuple'),
+               ('cluster', 'num_cells', 'uint8'), ('cluster', 'num_cells', 'int64'), ('cluster', 'cell_radius', 'int8'),
+               ('cluster', 'cell_radius', 'float32'), ('cluster', 'rotation', 'uint8'), ('cluster', 'rotation', 'int8'),
+               ('cluster', 'pos', 'complex64'), ('cluster', 'cell_ids', 'arr:int16'), ('cluster', 'cell_ids', 'uint8'),
+               ('cluster', 'cell_ids', 'tuple'), ('cluster', 'num_users', 'int64'), ('cluster', 'num_users', 'uint8'),
+               ('cluster', 'min_dist', 'int'), ('cluster', 'min_dist', 'float32'), ('cluster', 'bratio', 'int'),
+               ('cluster', 'bratio', 'float32'), ('cluster', 'angle', 'int16'),
+               ('pointprocess', 'num_points', 'uint8'), ('pointprocess', 'num_points', 'int64'),
+               ('pointprocess', 'max_radius', 'int8'), ('pointprocess', 'min_radius', 'uint8'), ('pointprocess', 'width', 'float32'),
+               ('rotated', 'cur_pos', 'arr:int16'), ('rotated', 'cur_pos', 'arr:uint8'), ('rotated', 'cur_pos', 'arr:complex64'),
+               ('rotated', 'cur_pos', 'arr:float32'), ('rotated', 'angle', 'int8'), ('rotated', 'angle', 'float16')]
+FIXED_LAYOUTS = [('add_border_user', v) for v in ('strided', 'reversed', 'column-of-2d', 'row-of-fortran', 'read-only', '0-d',
+                                                  'empty', 'broadcast')] + \
+                [('calc_rotated_pos', v) for v in ('fortran', 'transposed', 'strided', 'reversed', 'read-only', '0-d', 'empty')] + \
+                [('from_complex_array_to_real_matrix', v) for v in ('contiguous', 'strided', 'reversed', 'complex64', 'read-only')] + \
+                [('cluster_ids', v) for v in ('strided', 'reversed', 'read-only', 'broadcast')]
+ROT90 = [0.0, 90.0, -90.0, 180.0, -180.0, 270.0, 360.0, -360.0, 450.0, 720.0, -720.0]
+
+
+def robust_oracles(ctx, n):
+    """R1, R2, R3, R5, R6 on the real code (R4 and R7 are part of the histories)"""
+    rng = ctx.rng
+    # R1 element types
+    for ft in FIXED_TYPES:
+        a, p_, t_ = ft[:3]
+        case = gen_types_case(rng, a, p_, t_, ft[3] if len(ft) > 3 else None)
+        run_oracle(ctx, 'element_types', json_types_case(case), key=('types-fixed',) + tuple(ft))
+        ctx.branch('R1:' + ('narrow-int' if t_.replace('arr:', '') in INT_TYPES[1:] else
+                            'python-int' if t_ == 'int' else 'container' if t_ in ('list', 'tuple') else
+                            'narrow-float' if '16' in t_ or '32' in t_ or t_ == 'complex64' else 'float64'))
+    for _ in range(n):
+        case = gen_types_case(rng)
+        run_oracle(ctx, 'element_types', json_types_case(case), key=('types', repr(json_types_case(case))[:300]))
+    # R2 layouts (the arguments are snapshotted: R3 input immutability)
+    for a, v in FIXED_LAYOUTS:
+        for _ in range(40):
+            case = gen_layout_case(rng, a, v)
+            if v != 'broadcast' or a != 'add_border_user' or len({tuple(x) for x in case['angles']}) == 1:
+                break
+        run_oracle(ctx, 'array_layout', case, key=('layout-fixed', a, v))
+        ctx.branch('R2:' + v)
+    for _ in range(n):
+        case = gen_layout_case(rng)
+        run_oracle(ctx, 'array_layout', case, key=('layout', repr(case)[:300]))
+    # R3 output independence
+    for _ in range(max(6, n // 3)):
+        h = gen_history(rng, rng.choice(['hex', 'sec3', 'square', 'rect', 'wrap:hex', 'wrap:square']), scale=0)
+        h['ops'] = [op for op in h['ops'] if op[0] in 'PRTM']
+        run_oracle(ctx, 'aliasing', {'what': 'vertices', 'history': h}, key=('alias-v', repr(h['init']), repr(h['ops'])))
+        ctx.branch('R3:returned-arrays')
+    for ctype, n_ in (('simple', 7), ('simple', 19), ('3sec', 19), ('3sec', 3), ('square', 9), ('simple', 13)):
+        case = {'what': 'cluster', 'ctype': ctype, 'n': n_, 'R1': gen_radius(rng), 'R2': gen_radius(rng), 'rot1': gen_rot(rng),
+                'rot2': gen_rot(rng), 'pos1': gen_pos(rng), 'pos2': gen_pos(rng), 'npseed': rng.below(2 ** 31)}
+        run_oracle(ctx, 'aliasing', case, key=('alias-c', ctype, n_))
+        ctx.branch('R7:shared-class-cache')
+    for _ in range(4):
+        run_oracle(ctx, 'aliasing', {'what': 'wrap-shared', 'spec': gen_spec(rng, ['hex', 'sec3', 'square'], 0),
+                                     'w1': gen_pos(rng), 'w2': gen_pos(rng), 'w3': gen_pos(rng)})
+        ctx.branch('R7:shared-wrapped-cell')
+    # R5 boundary and degenerate values
+    tag = 'R5:rotation-multiple-of-90'
+    for kind in ('rect', 'rect', 'square', 'hex', 'sec3', 'wrap', 'sector'):
+        for rot in ROT90:
+            spec = gen_spec(rng, [kind], 0)
+            if kind == 'wrap':
+                spec['inner']['rot'] = rot
+            else:
+                spec['rot'] = rot
+            run_oracle(ctx, 'vertices', {'spec': spec, 'tag': tag}, key=('r5v', kind, rot))
+            run_oracle(ctx, 'is_point_inside_shape', {'spec': spec, 'queries': gen_queries(rng, spec, 8), 'tag': tag}, key=('r5c', kind, rot))
+            run_oracle(ctx, 'get_border_point', {'spec': spec, 'tag': tag,
+                                                 'queries': [[a, r] for a in ROT90 + [rot + 45.0] for r in (1.0, 0.5)]},
+                       key=('r5b', kind, rot))
+    tag = 'R5:ratio-0-1-None'
+    for kind in ('hex', 'sec3', 'square', 'rect', 'circle'):
+        spec = gen_spec(rng, [kind], 0)
+        run_oracle(ctx, 'get_border_point', {'spec': spec, 'tag': tag,
+                                             'queries': [[a, r] for a in (0.0, 33.0, 90.0, -120.0) for r in (0.0, 1.0, None, 0, 1)]},
+                   key=('r5r', kind))
+    tag = 'R5:unit-cell-at-origin'
+    for kind in ('hex', 'sec3', 'square', 'circle'):
+        spec = {'kind': kind, 'R': 1.0, 'side': 1.0, 'rot': 0.0, 'pos': [0.0, 0.0]}
+        run_oracle(ctx, 'vertices', {'spec': spec, 'tag': tag}, key=('r5u', kind))
+        run_oracle(ctx, 'is_point_inside_shape', {'spec': spec, 'queries': gen_queries(rng, spec, 8), 'tag': tag}, key=('r5uc', kind))
+        if kind != 'circle':
+            run_oracle(ctx, 'add_random_user', {'spec': spec, 'ratio': 0, 'draws': gen_draws(rng, 40), 'n': 2, 'tag': tag}, key=('r5uu', kind))
+    tag = 'R5:size-boundary'
+    for n_ in (1, 2, 3, 4, 5, 7, 8, 9, 15, 16, 17, 19):
+        for ctype in ('simple', '3sec'):
+            run_oracle(ctx, 'Cluster', {'type': ctype, 'n': n_, 'R': gen_radius(rng), 'rot': rng.choice(ROT90), 'pos': gen_pos(rng),
+                                        'tag': tag}, key=('r5n', ctype, n_))
+    for n_ in (1, 4, 9, 16, 25, 49, 64):
+        run_oracle(ctx, 'Cluster', {'type': 'square', 'n': n_, 'R': gen_radius(rng), 'rot': rng.choice(ROT90), 'pos': gen_pos(rng),
+                                    'tag': tag}, key=('r5s', n_))
+    for n_ in (2, 3, 5, 8, 15, 17, 24, 26, 48, 50, 63, 65):
+        run_oracle(ctx, 'Cluster.square.invalid', {'n': n_, 'tag': tag}, key=('r5i', n_), nontrivial=False)
+    tag = 'R5:zero-counts'
+    for ctype, n_ in (('simple', 3), ('square', 4), ('3sec', 1)):
+        case = {'type': ctype, 'n': n_, 'R': gen_radius(rng), 'rot': gen_rot(rng), 'pos': gen_pos(rng), 'npseed': 1,
+                'random': [[1, 0]], 'border': [], 'tag': tag}
+        run_oracle(ctx, 'calc_dist_all_users_to_each_cell', case, key=('r5z', ctype))
+    for case in ({'what': 'circle', 'n': 0, 'rmax': 2.0, 'rmin': 0.0}, {'what': 'circle', 'n': 1, 'rmax': 2.0, 'rmin': 2.0},
+                 {'what': 'circle', 'n': 5, 'rmax': 3.0, 'rmin': 3.0}, {'what': 'circle', 'n': 4, 'rmax': 0.0, 'rmin': 0.0},
+                 {'what': 'rectangle', 'n': 0, 'w': 1.0, 'h': 1.0}, {'what': 'rectangle', 'n': 1, 'w': 0.0, 'h': 2.0},
+                 {'what': 'rectangle', 'n': 3, 'w': 2.0, 'h': 0.0}):
+        c = dict(case, draws=[rng.choice([0.0, 1.0 - 2.0 ** -53, rng.uniform()]) for _ in range(2 * case['n'])], tag=tag)
+        run_oracle(ctx, 'pointprocess', c, key=('r5p', repr(case)))
+    # R6 scale: every kind at every scale, plus the cluster outline
+    for k in SCALE_EXPS:
+        tag = 'R6:scale:1e%+d' % k
+        for kind in ('hex', 'sec3', 'square', 'rect', 'circle', 'wrap', 'sector'):
+            spec = gen_spec(rng, [kind], k)
+            run_oracle(ctx, 'vertices', {'spec': spec, 'tag': tag}, key=('r6v', kind, k))
+            run_oracle(ctx, 'is_point_inside_shape', {'spec': spec, 'queries': gen_queries(rng, spec, 10), 'tag': tag}, key=('r6c', kind, k))
+            run_oracle(ctx, 'get_border_point', {'spec': spec, 'queries': gen_angles(rng, spec, 10), 'tag': tag}, key=('r6b', kind, k))
+            if kind in ('hex', 'sec3', 'square', 'sector'):
+                run_oracle(ctx, 'add_random_user', {'spec': spec, 'ratio': rng.choice([0.0, 0.4]), 'draws': gen_draws(rng, 60),
+                                                    'n': 2, 'tag': tag}, key=('r6u', kind, k))
+        f = 10.0 ** k
+        for ctype, n_ in (('simple', 7), ('3sec', 3), ('square', 4), ('simple', 19)):
+            p_ = gen_pos(rng)
+            case = {'type': ctype, 'n': n_, 'R': gen_radius(rng) * f, 'rot': gen_rot(rng), 'pos': [p_[0] * f, p_[1] * f], 'tag': tag}
+            run_oracle(ctx, 'Cluster', case, key=('r6cl', ctype, n_, k))
+            dc = dict(case, npseed=rng.below(2 ** 31), ratio=0.3, random=[[1, 2]], border=[[1, 45.0, 0.5]])
+            run_oracle(ctx, 'calc_dist_all_users_to_each_cell', dc, key=('r6d', ctype, n_, k))
+            run_oracle(ctx, 'Cluster.outline', dict(case), key=('r6o', ctype, n_, k))
+        h = gen_history(rng, rng.choice(['hex', 'sec3', 'square', 'wrap:sec3']), scale=k)
+        h['tag'] = tag
+        run_oracle(ctx, 'setter_history', h, key=('r6h', k))
+        c = {'what': 'circle', 'n': 20, 'rmax': 3.0 * f, 'rmin': 1.0 * f, 'draws': None, 'npseed': 7, 'tag': tag}
+        run_oracle(ctx, 'pointprocess', c, key=('r6p', k))
+
+
+def o_cluster_outline(case):
+    """R6: the outer vertices of a cluster (`Cluster.vertices`) are the same polygon at every scale: as many
+    vertices as for the unit-radius twin at the origin, each on a cell vertex"""
+    shapes, cell, _ = _mods()
+    n, R, rot, ctype = case['n'], case['R'], case['rot'], case['type']
+    if ctype == 'square':
+        return None
+    pos = cx(case['pos'])
+    cl = cell.Cluster(cell_radius=R, num_cells=n, pos=pos, cell_type=ctype, rotation=rot)
+    tw = cell.Cluster(cell_radius=1.0, num_cells=n, pos=0j, cell_type=ctype, rotation=rot)
+    v1 = np.asarray(cl.vertices)
+    v0 = np.asarray(tw.vertices)
+    k = int(round(math.log10(R))) if R > 0 else 0
+    if len(v1) != len(v0):
+        return ('cluster-outline:%s:vertex-count:scale~1e%+d' % (ctype, 3 * int(round(k / 3.0))),
+                'the outline of the cluster has %d vertices, the unit-radius twin has %d' % (len(v1), len(v0)))
+    return None
+
+
+
 def o_wrap_readonly(case):
     """radius and rotation of a CellWrap cannot be set (they are the wrapped cell's)"""
     shapes, cell, _ = _mods()
@@ -875,10 +1963,14 @@ ORACLES = {'vertices': o_vertices, 'is_point_inside_shape': o_contains, 'get_bor
            'add_border_user': o_border_user, 'add_border_user.ratio': o_border_user_ratio, 'add_random_user': o_random_user, 'add_user': o_add_user,
            'Cluster': o_cluster, 'Cluster.square.invalid': o_cluster_invalid,
            'calc_dist_all_users_to_each_cell': o_distmatrix, 'pointprocess': o_pointprocess,
-           'setter_history': o_history, 'CellWrap.readonly': o_wrap_readonly}
+           'setter_history': o_history, 'CellWrap.readonly': o_wrap_readonly,
+           'element_types': o_types_replayable, 'array_layout': o_layout, 'aliasing': o_aliasing,
+           'Cluster.outline': o_cluster_outline}
 
 
 def run_oracle(ctx, call, case, key=None, nontrivial=True):
+    """`case['tag']` (the robustness class the input was generated for, e.g. `R5:rotation-multiple-of-90`) becomes
+    part of the failure class"""
     ctx.count((call, key if key is not None else repr(case)), nontrivial)
     try:
         r = ORACLES[call](case)
@@ -886,11 +1978,15 @@ def run_oracle(ctx, call, case, key=None, nontrivial=True):
         r = None
     except Exception as e:
         r = ('exception:' + type(e).__name__, repr(e)[:300])
+    if r is not None and isinstance(case, dict) and case.get('tag'):
+        r = (r[0] + ':' + case['tag'], r[1])
     if r is not None:
         ctx.fail(call, r[0], case, r[1])
         ctx.branch('oracle-fail:' + call)
     else:
         ctx.branch('oracle-ok:' + call)
+    if isinstance(case, dict) and case.get('tag'):
+        ctx.branch(case['tag'])
     return r
 
 
@@ -926,7 +2022,37 @@ def gen_radius(rng):
     return round(10.0 ** rng.uniform(-2, 2), 6)
 
 
-def gen_spec(rng, kinds):
+SCALE_EXPS = [-12, -9, -6, -3, 3, 6, 9, 12]
+
+
+def gen_spec(rng, kinds, scale=None):
+    """a shape spec; with probability 0.3 the whole input (position and size) is multiplied by 1e-12 .. 1e12"""
+    spec = gen_spec_unit(rng, kinds)
+    if scale is None:
+        scale = rng.choice(SCALE_EXPS) if rng.chance(0.3) else 0
+    return scale_spec(spec, scale)
+
+
+def scale_spec(spec, k):
+    if not k:
+        return spec
+    f = 10.0 ** k
+    out = dict(spec)
+    if spec['kind'] == 'wrap':
+        out['pos'] = [spec['pos'][0] * f, spec['pos'][1] * f]
+        out['inner'] = scale_spec(spec['inner'], k)
+        return out
+    for key in ('pos', 'first', 'second'):
+        if key in out:
+            out[key] = [out[key][0] * f, out[key][1] * f]
+    for key in ('R', 'side'):
+        if key in out:
+            out[key] = out[key] * f
+    out['scale_exp'] = k
+    return out
+
+
+def gen_spec_unit(rng, kinds):
     k = rng.choice(kinds)
     if k in ('hex', 'hexshape', 'sec3'):
         return {'kind': k, 'R': gen_radius(rng), 'rot': gen_rot(rng), 'pos': gen_pos(rng)}
@@ -947,9 +2073,16 @@ def gen_spec(rng, kinds):
             a, b = b, a
         return {'kind': k, 'first': a, 'second': b, 'rot': gen_rot(rng)}
     if k == 'wrap':
-        inner = gen_spec(rng, ['hex', 'sec3', 'square'])
+        inner = gen_spec_unit(rng, ['hex', 'sec3', 'square'])
         return {'kind': 'wrap', 'pos': gen_pos(rng), 'inner': inner}
     raise ValueError(k)
+
+
+def branch_scale(ctx, spec):
+    k = spec.get('scale_exp', 0) if spec['kind'] != 'wrap' else spec['inner'].get('scale_exp', 0)
+    if k:
+        ctx.branch('R6:scale:1e%+d' % k)
+        ctx.branch('R6:scaled-input')
 
 
 def gen_queries(rng, spec, n):
@@ -1040,6 +2173,7 @@ def corr_shapes(ctx, drv, kinds, nshapes, nq):
     shapes, cell, _ = _mods()
     for _ in range(nshapes):
         spec = gen_spec(ctx.rng, kinds)
+        branch_scale(ctx, spec)
         kind = base_kind(spec)
         sh = make_shape(spec)
         sl = spec_line(spec)
@@ -1210,7 +2344,7 @@ def corr_clusters(ctx, drv, cases):
     for case in cases:
         n, R, rot, ctype = case['n'], case['R'], case['rot'], case['type']
         pos = cx(case['pos'])
-        sc = max(1.0, abs(pos) + 6 * R)
+        sc = 6 * R + 1e-3 * abs(pos)
         tol = TOL * sc
         line = 'cluster %s %d %s %s %s %s' % ('square' if ctype == 'square' else 'hex', n, core.f2s(R), core.f2s(rot),
                                               core.f2s(pos.real), core.f2s(pos.imag))
@@ -1263,7 +2397,7 @@ def corr_distm(ctx, drv, ncases):
         m = drv.ask(['distm %s %s' % (qline([c2(u) for u in users]), qline([c2(c) for c in cells]))])[0]
         rows = [[core.s2f(t) for t in r.split(',')] for r in m.split(';')]
         ok = (M.shape == (len(users), len(cells)) and M2.shape == M.shape and
-              all(core.close(M[i, j], rows[i][j], 1e-12) and core.close(M2[i, j], rows[i][j], 1e-12)
+              all(rclose(M[i, j], rows[i][j], 1e-12) and rclose(M2[i, j], rows[i][j], 1e-12)
                   for i in range(len(users)) for j in range(len(cells))))
         ctx.corr('calc_dist_all_users_to_each_cell', case, 'match' if ok else repr(M.tolist())[:300], 'match' if ok else repr(rows)[:300],
                  key=('distm', repr(case)))
@@ -1283,7 +2417,7 @@ def corr_pp(ctx, drv, ncases):
                 pts = [complex(z) for z in pp.generate_random_points_in_circle(n, rmax, rmin)]
             m = drv.ask(['ppcircle %s %s %s %s' % (core.f2s(rmax), core.f2s(rmin), ','.join(map(core.f2s, us)),
                                                   ','.join(map(core.f2s, vs)))])[0]
-            ok = pts_close(pts, fpts(m), 1e-12 * max(1.0, rmax))
+            ok = pts_close(pts, fpts(m), 1e-12 * rmax)
             ctx.corr('generate_random_points_in_circle', {'rmax': rmax, 'rmin': rmin, 'u': us, 'v': vs},
                      'match' if ok else repr(pts), 'match' if ok else repr(fpts(m)), key=('ppc', rmax, rmin, tuple(us)))
             ctx.branch('pp:circle')
@@ -1293,7 +2427,7 @@ def corr_pp(ctx, drv, ncases):
                 pts = [complex(z) for z in pp.generate_random_points_in_rectangle(n, w, h)]
             m = drv.ask(['pprect %s %s %s %s' % (core.f2s(w), core.f2s(h), ','.join(map(core.f2s, us)),
                                                 ','.join(map(core.f2s, vs)))])[0]
-            ok = pts_close(pts, fpts(m), 1e-12 * max(1.0, w, h))
+            ok = pts_close(pts, fpts(m), 1e-12 * max(w, h))
             ctx.corr('generate_random_points_in_rectangle', {'w': w, 'h': h, 'u': us, 'v': vs},
                      'match' if ok else repr(pts), 'match' if ok else repr(fpts(m)), key=('ppr', w, h, tuple(us)))
             ctx.branch('pp:rectangle')
@@ -1326,47 +2460,111 @@ def corr_corpus(ctx, drv):
             ctx.branch('border:corpus')
 
 
-def gen_history(rng, kind=None, nq=6):
-    """a freshly constructed cell, 1-6 setter calls (radii growing AND shrinking by factors 0.05..10,
-    moves, rotations in [-720, 720]; for wrapped cells also moves of the wrap), then the queries"""
+def gen_history(rng, kind=None, nq=6, scale=None, must=()):
+    """a freshly constructed cell and 1-8 calls: every public mutator (`pos`, `radius` x0.05..x10 growing AND
+    shrinking, `rotation` in [-720, 720], move_by_relative_coordinate, move_by_relative_polar_coordinate, for
+    wrapped cells also moves of the wrap), user additions / deletions in between, and calls that must be
+    rejected; then the queries.  `must` lists op kinds that have to occur."""
     kind = kind or rng.choice(['hex', 'sec3', 'sec3', 'sec3', 'square', 'square', 'rect', 'wrap:hex', 'wrap:sec3', 'wrap:square'])
     wrapped = kind.startswith('wrap:')
     base = kind[5:] if wrapped else kind
-    init = gen_spec(rng, [base])
-    case = {'init': init, 'wrap': gen_pos(rng) if wrapped else None, 'ops': []}
-    _, R, _ = hist_initial(case)
-    for _ in range(rng.randint(1, 6)):
-        t = rng.choice(['P', 'R', 'R', 'T'] + (['W'] if wrapped else []))
-        if t == 'P':
-            case['ops'].append(['P'] + gen_pos(rng))
-        elif t == 'W':
-            case['ops'].append(['W'] + gen_pos(rng))
+    init = gen_spec(rng, [base], scale)
+    f = 10.0 ** init.get('scale_exp', 0)
+
+    def spos():
+        p = gen_pos(rng)
+        return [p[0] * f, p[1] * f]
+
+    case = {'init': init, 'wrap': spos() if wrapped else None, 'ops': []}
+    _, R0, _ = hist_initial(case)
+    R = R0
+    size0 = shape_size(init)
+    menu = ['P', 'M', 'Q', 'R', 'R', 'T'] + (['W'] if wrapped else [])
+    if base != 'rect':
+        menu += ['U', 'B', 'D', 'X']
+    if base == 'sec3':
+        menu += ['S']
+    todo = list(must) + [rng.choice(menu) for _ in range(rng.randint(1, 8))]
+    rng.shuffle(todo)
+    for t in todo:
+        if t in ('P', 'W'):
+            case['ops'].append([t] + spos())
+        elif t == 'M':
+            d = spos() if rng.chance(0.5) else c2(size0 * rng.uniform(0.1, 5) * cis(rng.uniform(0, 360)))
+            case['ops'].append(['M'] + d)
+        elif t == 'Q':
+            case['ops'].append(['Q', size0 * rng.choice([0.5, 1.0, 3.0, 10.0]), rng.choice(
+                [0.0, math.pi / 2, math.pi, rng.uniform(-7, 7)])])
         elif t == 'T':
             case['ops'].append(['T', gen_rot(rng)])
-        else:
-            R = min(1e3, max(1e-3, round(R * rng.choice([0.05, 0.1, 0.2, 0.5, 0.9, 1.5, 3.0, 10.0]), 9)))
+        elif t == 'R':
+            R = min(1e3 * R0, max(1e-3 * R0, R * rng.choice([0.05, 0.1, 0.2, 0.5, 0.9, 1.5, 3.0, 10.0])))
             case['ops'].append(['R', R])
+        elif t == 'U':
+            case['ops'].append(['U', rng.choice([0.0, 0.3, 0.6, 0.9]), rng.uniform(0, 360)])
+        elif t == 'B':
+            case['ops'].append(['B', float(rng.randint(-24, 24) * 15 + rng.choice([0, 7])), rng.choice([1.0, 0.5, 0.25, 0.9])])
+        elif t == 'S':
+            case['ops'].append(['S', rng.below(3), gen_draws(rng, 40)])
+        elif t == 'D':
+            case['ops'].append(['D'])
+        elif t == 'X':
+            what = rng.choice(['add_user_outside', 'add_user_outside_relative', 'add_user_not_a_node', 'border_ratio',
+                               'border_ratio_list'] + (['sector_index'] if base == 'sec3' else [])
+                              + (['wrap_radius', 'wrap_rotation'] if wrapped else []))
+            if what.startswith('add_user'):
+                case['ops'].append(['X', what, rng.uniform(0, 360)])
+            elif what.startswith('border_ratio'):
+                case['ops'].append(['X', what, float(rng.randint(-12, 12) * 30), rng.choice([-0.5, 1.5, 2.0, -1e-9, 1.0 + 1e-9])])
+            elif what == 'sector_index':
+                case['ops'].append(['X', what, rng.choice([0, 4, 7, -1])])
+            else:
+                case['ops'].append(['X', what])
     tspec = hist_current_spec(case)
     case['queries'] = gen_queries(rng, tspec, nq)
     case['angles'] = gen_angles(rng, tspec, nq)
     case['ratio'] = rng.choice([0.0, 0.0, 0.3, 0.6])
     case['draws'] = gen_draws(rng, 40)
     case['sector_draws'] = [gen_draws(rng, 40) for _ in range(3)]
-    case['pre_user'] = rng.chance(0.3)
     return case
 
 
 def hist_line(case):
-    """driver tokens `cellhist [wrap wx wy] kind px py size rot ops`"""
+    """driver tokens `cellhist [wrap wx wy] kind px py size rot ops`; returns None when the history contains a
+    call the model does not take (scripted sector placement, type / index / wrap-attribute rejections)"""
     init = case['init']
     f = core.f2s
+    if init['kind'] == 'rect':
+        return None
     size = init['side'] if init['kind'] == 'square' else init['R']
     toks = []
-    for op in case['ops']:
-        if op[0] in ('P', 'W'):
-            toks.append('%s:%s:%s' % (op[0], f(op[1]), f(op[2])))
+    for i, op in enumerate(case['ops']):
+        t = op[0]
+        if t in ('P', 'W', 'M'):
+            toks.append('%s:%s:%s' % (t, f(op[1]), f(op[2])))
+        elif t in ('R', 'T'):
+            toks.append('%s:%s' % (t, f(op[1])))
+        elif t == 'Q':
+            toks.append('Q:%s:%s' % (f(op[1]), f(op[2])))
+        elif t == 'D':
+            toks.append('D')
+        elif t == 'B':
+            toks.append('B:%s:%s' % (f(op[1]), f(op[2])))
+        elif t == 'U':
+            pos, _, _, _ = hist_current(case, i)
+            cspec = hist_current_spec(case, i, cell_only=True)
+            p = pos + op[1] * inradius(cspec) * cis(op[2])
+            toks.append('U:%s:%s' % (f(p.real), f(p.imag)))
+        elif t == 'X' and op[1] == 'add_user_outside':
+            pos, Rc, _, _ = hist_current(case, i)
+            p = pos + 5.0 * Rc * cis(op[2])
+            toks.append('U:%s:%s' % (f(p.real), f(p.imag)))
+        elif t == 'X' and op[1] == 'border_ratio':
+            toks.append('B:%s:%s' % (f(op[2]), f(op[3])))
+        elif t == 'X':
+            continue            # rejected before the geometry is consulted: not a step of the model
         else:
-            toks.append('%s:%s' % (op[0], f(op[1])))
+            return None
     head = 'cellhist '
     if case.get('wrap') is not None:
         head += 'wrap %s %s ' % (f(case['wrap'][0]), f(case['wrap'][1]))
@@ -1374,30 +2572,85 @@ def hist_line(case):
                                          ','.join(toks) if toks else '-')
 
 
-def corr_history(ctx, drv, ncases):
-    """the state-machine model against the real objects after the same setter calls"""
-    shapes, cell, _ = _mods()
-    fixed = []
-    for kind in ('hex', 'sec3', 'square', 'wrap:sec3', 'wrap:square'):     # every kind, shrinking and growing
-        for f in (0.1, 4.0):
-            c = gen_history(ctx.rng, kind)
+def hist_branches(ctx, case):
+    name = ('wrap:' if case.get('wrap') is not None else '') + hist_kind(case)
+    ctx.branch('history:' + name)
+    _, R0, _ = hist_initial(case)
+    for op in case['ops']:
+        ctx.branch('history-op:' + op[0])
+        if op[0] == 'R':
+            ctx.branch('history-radius:' + ('shrink' if op[1] < R0 else 'grow'))
+            R0 = op[1]
+        if op[0] == 'X':
+            ctx.branch('R4:rejected:' + op[1])
+        if op[0] in ('M', 'Q'):
+            ctx.branch('R7:move-helper')
+    branch_scale(ctx, case['init'])
+
+
+def fixed_histories(rng):
+    """every kind through a shrinking and a growing radius, each move helper, and each rejected call"""
+    out = []
+    for kind in ('hex', 'sec3', 'square', 'rect', 'wrap:hex', 'wrap:sec3', 'wrap:square'):
+        for must in (['R'], ['M'], ['Q'], ['M', 'U'], ['Q', 'U', 'R'], ['P', 'B']):
+            if kind == 'rect' and ('U' in must or 'B' in must):
+                continue
+            c = gen_history(rng, kind, must=must)
+            out.append(c)
+        for f in (0.05, 5.0):
+            c = gen_history(rng, kind)
             _, R0, _ = hist_initial(c)
-            c['ops'] = [['R', round(R0 * f, 9)]] + c['ops'][:2]
+            c['ops'] = [['R', R0 * f]] + [op for op in c['ops'] if op[0] != 'R'][:3]
             t = hist_current_spec(c)
-            c['queries'] = gen_queries(ctx.rng, t, 6)
-            c['angles'] = gen_angles(ctx.rng, t, 6)
-            fixed.append(c)
-    for case in fixed + [gen_history(ctx.rng) for _ in range(ncases)]:
+            c['queries'] = gen_queries(rng, t, 6)
+            c['angles'] = gen_angles(rng, t, 6)
+            out.append(c)
+    for kind, whats in (('hex', ['add_user_outside', 'add_user_outside_relative', 'add_user_not_a_node', 'border_ratio',
+                                 'border_ratio_list']),
+                        ('square', ['add_user_outside', 'add_user_outside_relative', 'border_ratio']),
+                        ('sec3', ['sector_index', 'add_user_outside_relative', 'border_ratio_list']),
+                        ('wrap:hex', ['wrap_radius', 'wrap_rotation'])):
+        for what in whats:
+            c = gen_history(rng, kind, must=['U', 'M'])
+            if what.startswith('add_user'):
+                x = ['X', what, rng.uniform(0, 360)]
+            elif what.startswith('border_ratio'):
+                x = ['X', what, 30.0, 1.5]
+            elif what == 'sector_index':
+                x = ['X', what, 4]
+            else:
+                x = ['X', what]
+            c['ops'].insert(rng.randint(1, len(c['ops'])), x)
+            t = hist_current_spec(c)
+            c['queries'] = gen_queries(rng, t, 6)
+            c['angles'] = gen_angles(rng, t, 6)
+            out.append(c)
+    return out
+
+
+def corr_history(ctx, drv, ncases):
+    """the state-machine model against the real objects after the same calls"""
+    shapes, cell, _ = _mods()
+    for case in fixed_histories(ctx.rng) + [gen_history(ctx.rng) for _ in range(ncases)]:
         kind = hist_kind(case)
-        if kind == 'rect':
+        hist_branches(ctx, case)
+        hl = hist_line(case)
+        if kind == 'rect' or hl is None:
             continue
-        obj, wrap = hist_build(case)
+        name = ('wrap:' if case.get('wrap') is not None else '') + kind
+        ckey = (repr(case['init']), repr(case['ops']), repr(case.get('wrap')))
+        try:
+            obj, wrap, tracked = hist_build(case)
+        except StreamEnd:
+            continue
+        except Exception as e:      # the model accepts this history; an exception of the code is a disagreement
+            ctx.corr('history.calls.' + name, case, 'exception:%s:%s' % (type(e).__name__, str(e)[:80]), 'accepted',
+                     key=('hexc',) + ckey)
+            continue
         target = wrap if wrap is not None else obj
         tspec = hist_current_spec(case)
-        name = ('wrap:' if wrap is not None else '') + kind
         sc = spec_scale(tspec)
-        tol = TOL * sc + 1e-9 * shape_size(tspec)
-        hl = hist_line(case)
+        tol = TOL * sc
         verts = [complex(v) for v in np.asarray(target.vertices)]
         lines = [hl + ' verts', hl + ' inside ' + qline(case['queries'])]
         lines += ['%s border %s %s' % (hl, core.f2s(a), core.f2s(r)) for a, r in case['angles']]
@@ -1405,15 +2658,7 @@ def corr_history(ctx, drv, ncases):
         mv = fpts(out[0])
         ok = pts_close(verts, mv, tol)
         ctx.corr('history.vertices.' + name, case, 'match' if ok else repr(verts[:4]), 'match' if ok else repr(mv[:4]),
-                 key=('hverts', repr(case['init']), repr(case['ops'])))
-        ctx.branch('history:' + name)
-        for op in case['ops']:
-            ctx.branch('history-op:' + op[0])
-        _, R0, _ = hist_initial(case)
-        for op in case['ops']:
-            if op[0] == 'R':
-                ctx.branch('history-radius:' + ('shrink' if op[1] < R0 else 'grow'))
-                R0 = op[1]
+                 key=('hverts',) + ckey)
         ref = ref_vertices(tspec)
         for q, m in zip(case['queries'], out[1].split(',')):
             p = cx(q)
@@ -1421,36 +2666,44 @@ def corr_history(ctx, drv, ncases):
             if margin < 1e-9 * sc:
                 continue
             ctx.corr('history.inside.' + name, {'case': case, 'q': q}, '1' if target.is_point_inside_shape(p) else '0', m,
-                     key=('hinside', repr(case['ops']), repr(q)))
+                     key=('hinside', repr(q)) + ckey)
         for (a, r), m in zip(case['angles'], out[2:]):
             try:
                 p = complex(target.get_border_point(a, r))
                 mp = fpts(m)[0] if not m.startswith('error') else None
                 ok = mp is not None and abs(p - mp) <= tol
                 ctx.corr('history.border.' + name, {'case': case, 'angle': a, 'ratio': r}, 'match' if ok else repr(p),
-                         'match' if ok else m, key=('hborder', repr(case['ops']), a, r))
+                         'match' if ok else m, key=('hborder', a, r) + ckey)
             except ValueError:
                 ctx.corr('history.border.' + name, {'case': case, 'angle': a, 'ratio': r}, 'error:ValueError', m,
-                         key=('hborder', repr(case['ops']), a, r))
+                         key=('hborder', a, r) + ckey)
         if wrap is not None:
             continue
-        # stored attributes and sector cells
-        m = drv.ask([hl + ' state'])[0].split()
+        # stored attributes, users and sector cells
+        m = drv.ask([hl + ' state', hl + ' users'])
+        mu = fpts(m[1]) if m[1] != '-' else []
+        m = m[0].split()
         mpos = fpts(m[0])[0]
-        ok = (abs(mpos - complex(obj.pos)) <= tol and core.close(core.s2f(m[1]), float(obj.radius), 1e-12)
-              and core.close(core.s2f(m[2]), float(complex(obj.rotation).real), 1e-12))
+        ok = (abs(mpos - complex(obj.pos)) <= tol and rclose(core.s2f(m[1]), float(obj.radius), 1e-12)
+              and rclose(core.s2f(m[2]), float(complex(obj.rotation).real), 1e-12))
         ctx.corr('history.attributes.' + name, case, 'match' if ok else repr((obj.pos, obj.radius, obj.rotation)),
-                 'match' if ok else repr(m), key=('hstate', repr(case['init']), repr(case['ops'])))
+                 'match' if ok else repr(m), key=('hstate',) + ckey)
+        users = [complex(u.pos) for u in obj.users]
+        ok = pts_close(users, mu, tol)
+        ctx.corr('history.users.' + name, case, 'match' if ok else repr(users[:4]), 'match' if ok else repr(mu[:4]),
+                 key=('husers',) + ckey)
+        if users:
+            ctx.branch('history:users-tracked')
         if kind == 'sec3':
             m = drv.ask([hl + ' secinfo'])[0].split(';')
             ok = len(m) == 3
             for sec, t in zip([obj._sec1, obj._sec2, obj._sec3], m):
                 v = [core.s2f(x) for x in t.split(',')]
-                ok = ok and abs(complex(v[0], v[1]) - complex(sec.pos)) <= tol and core.close(v[2], float(sec.radius), 1e-12) \
-                    and core.close(v[3], float(complex(sec.rotation).real), 1e-12)
+                ok = ok and abs(complex(v[0], v[1]) - complex(sec.pos)) <= tol and rclose(v[2], float(sec.radius), 1e-12) \
+                    and rclose(v[3], float(complex(sec.rotation).real), 1e-12)
             ctx.corr('history.sectors', case, 'match' if ok else repr([(s_.pos, s_.radius, s_.rotation) for s_ in
                                                                         (obj._sec1, obj._sec2, obj._sec3)]),
-                     'match' if ok else repr(m), key=('hsec', repr(case['init']), repr(case['ops'])))
+                     'match' if ok else repr(m), key=('hsec',) + ckey)
             ctx.branch('history:sectors')
         # scripted placement: whole cell, then per sector
         pos, R, rot, _ = hist_current(case)
@@ -1482,15 +2735,135 @@ def corr_history(ctx, drv, ncases):
             q = ('randuser %s %s' if what == 'cell' else 'sector %d randuser %%s %%s' % k) % (
                 core.f2s(case['ratio']), ','.join(core.f2s(d) for d in draws))
             m = drv.ask([hl + ' ' + q])[0]
-            ckey = ('hru', what, k, repr(case['init']), repr(case['ops']))
+            rkey = ('hru', what, k) + ckey
             if impl is None or m == 'none':
                 ctx.corr('history.add_random_user.' + what, case, 'none' if impl is None else 'placed',
-                         'none' if m == 'none' else 'placed', key=ckey)
+                         'none' if m == 'none' else 'placed', key=rkey)
                 continue
             mp, mn = m.split()
             ok = abs(fpts(mp)[0] - impl[0]) <= tol and int(mn) == impl[1]
-            ctx.corr('history.add_random_user.' + what, case, 'match' if ok else repr(impl), 'match' if ok else m, key=ckey)
+            ctx.corr('history.add_random_user.' + what, case, 'match' if ok else repr(impl), 'match' if ok else m, key=rkey)
             ctx.branch('history-randuser:' + what)
+
+
+def corr_robust(ctx, drv, n):
+    """R1 / R2 / R3 against the model: the code is given another element type, another memory layout, or has had
+    its returned arrays overwritten; the model is given the logical values"""
+    shapes, cell, pp = _mods()
+    w = quiet()
+    try:
+        # R1: typed constructor / setter arguments
+        fixed = [('shape', 'rot', 'uint8'), ('shape', 'rot', 'int8'), ('shape', 'size', 'uint8'), ('shape', 'size', 'float32'),
+                 ('shape', 'pos', 'complex64'), ('shape', 'pos', 'int'), ('setter', 'rot', 'uint8'), ('setter', 'size', 'int16'),
+                 ('setter', 'move', 'int8'), ('shape', 'size', 'float16')]
+        todo = [gen_types_case(ctx.rng, a, p_, t_) for a, p_, t_ in fixed]
+        todo += [gen_types_case(ctx.rng, ctx.rng.choice(['shape', 'setter'])) for _ in range(n)]
+        for case in todo:
+            if case['param'] not in ('pos', 'size', 'rot', 'move', 'polar'):
+                continue
+            spec, param, t = case['spec'], case['param'], case['type']
+            sc = shape_size(spec) + abs(cx(spec['pos']))
+            tol = type_tol(t) * sc
+            key = ('ctype', case['api'], param, t, repr(spec))
+            name = 'types.%s.%s' % (case['api'], param)
+            try:
+                if case['api'] == 'shape':
+                    obj = make_shape_typed(spec, param, t)
+                    mspec = spec
+                else:
+                    obj = make_shape(spec)
+                    mspec = dict(spec)
+                    if param == 'pos':
+                        obj.pos = cast(cx(spec['pos']) + 3, t) if fits(cx(spec['pos']) + 3, t) else cx(spec['pos']) + 3
+                        mspec['pos'] = [spec['pos'][0] + 3.0, spec['pos'][1]]
+                    elif param == 'move':
+                        obj.move_by_relative_coordinate(cast(complex(4.0), t))
+                        mspec['pos'] = [spec['pos'][0] + 4.0, spec['pos'][1]]
+                    elif param == 'polar':
+                        obj.move_by_relative_polar_coordinate(cast(4.0, t), 0)
+                        mspec['pos'] = [spec['pos'][0] + 4.0, spec['pos'][1]]
+                    elif param == 'rot':
+                        obj.rotation = cast(30.0, t)
+                        mspec['rot'] = 30.0
+                    elif param == 'size':
+                        if spec['kind'] == 'square':
+                            continue
+                        obj.radius = cast(7.0, t)
+                        mspec['R'] = 7.0
+                verts = [complex(v) for v in np.asarray(obj.vertices)]
+                bps = [complex(obj.get_border_point(a, 1.0)) for a, _ in case['angles']]
+            except Exception as e:
+                ctx.corr(name, json_types_case(case), 'exception:' + type(e).__name__, 'ok', key=key)
+                continue
+            sl = spec_line(mspec)
+            out = drv.ask(['verts ' + sl] + ['border %s %s %s' % (sl, core.f2s(a), core.f2s(1.0)) for a, _ in case['angles']])
+            ok = pts_close(verts, fpts(out[0]), tol) and all(abs(b - fpts(m)[0]) <= tol for b, m in zip(bps, out[1:]))
+            ctx.corr(name, json_types_case(case), 'match' if ok else repr(verts[:3]), 'match' if ok else repr(fpts(out[0])[:3]), key=key)
+            ctx.branch('R1:corr:' + ('narrow-int' if t in INT_TYPES else t))
+            if mspec['kind'] == 'sec3':
+                secs = [obj._sec1, obj._sec2, obj._sec3]
+                mk = drv.ask(['verts ' + spec_line({'kind': 'sector', 'R': mspec['R'], 'rot': mspec['rot'], 'pos': mspec['pos'], 'k': k})
+                              for k in range(3)])
+                ok = all(pts_close([complex(v) for v in np.asarray(sec.vertices)], fpts(m), tol) for sec, m in zip(secs, mk))
+                ctx.corr('types.sectors.' + param, json_types_case(case), 'match' if ok else repr([s_.rotation for s_ in secs]),
+                         'match', key=key + ('sec',))
+        # R2: array layouts of add_border_user / calc_rotated_pos
+        for _ in range(n):
+            case = gen_layout_case(ctx.rng, ctx.rng.choice(['add_border_user', 'calc_rotated_pos']))
+            key = ('clayout', repr(case))
+            if case['api'] == 'add_border_user':
+                if case['variant'] in ('empty',):
+                    continue
+                spec = case['spec']
+                angs = np.array([a for a, _ in case['angles']], dtype=float)
+                rats = np.array([r for _, r in case['angles']], dtype=float)
+                obj = make_shape(spec)
+                try:
+                    if case['variant'] == '0-d':
+                        obj.add_border_user(np.array(angs[0]), float(rats[0]))
+                        pairs = [(angs[0], rats[0])]
+                    else:
+                        va = layout_variants(angs if case['which'] == 'angles' else rats).get(case['variant'])
+                        if va is None:
+                            continue
+                        obj.add_border_user(va if case['which'] == 'angles' else angs, rats if case['which'] == 'angles' else va)
+                        pairs = list(zip(angs, rats))
+                    users = [complex(u.pos) for u in obj.users]
+                except Exception as e:
+                    ctx.corr('layout.add_border_user', case, 'exception:' + type(e).__name__, 'ok', key=key)
+                    continue
+                sl = spec_line(spec)
+                out = drv.ask(['borderuser %s %s %s' % (sl, core.f2s(a), core.f2s(r)) for a, r in pairs])
+                ok = len(users) == len(out) and all(abs(u - fpts(m)[0]) <= TOL * spec_scale(spec) for u, m in zip(users, out))
+                ctx.corr('layout.add_border_user', case, 'match' if ok else repr(users[:3]), 'match' if ok else repr(out[:3]), key=key)
+            else:
+                A = np.array([complex(*v) for v in case['values']], dtype=complex).reshape(case['shape'])
+                if case['variant'] in ('empty', '0-d'):
+                    continue
+                arg = {'fortran': np.asfortranarray(A), 'transposed': np.ascontiguousarray(A.T).T,
+                       'reversed': A[..., ::-1].copy()[..., ::-1]}.get(case['variant'], A)
+                out = np.asarray(shapes.Shape.calc_rotated_pos(arg, case['angle']))
+                m = drv.ask(['rotpts %s %s' % (core.f2s(case['angle']), qline([c2(z) for z in A.ravel()]))])[0]
+                mp = np.array(fpts(m)).reshape(A.shape)
+                ok = out.shape == A.shape and np.max(np.abs(out - mp)) <= 1e-12 * np.max(np.abs(A))
+                ctx.corr('layout.calc_rotated_pos', case, 'match' if ok else repr(out.ravel()[:3]), 'match' if ok else repr(mp.ravel()[:3]), key=key)
+            ctx.branch('R2:corr:' + case['variant'])
+        # R3: after the returned arrays were overwritten the object still answers like the model
+        for _ in range(max(4, n // 4)):
+            spec = gen_spec(ctx.rng, ['hex', 'sec3', 'square', 'rect'])
+            obj = make_shape(spec)
+            v = obj.vertices
+            v[...] = 0
+            obj._get_vertex_positions()[...] = 0
+            verts = [complex(z) for z in np.asarray(obj.vertices)]
+            m = drv.ask(['verts ' + spec_line(spec)])[0]
+            ok = pts_close(verts, fpts(m), TOL * spec_scale(spec))
+            ctx.corr('aliasing.vertices', spec, 'match' if ok else repr(verts[:3]), 'match' if ok else repr(fpts(m)[:3]),
+                     key=('calias', repr(spec)))
+            ctx.branch('R3:corr:overwritten-output')
+    finally:
+        w.__exit__(None, None, None)
+
 
 
 
@@ -1498,6 +2871,7 @@ def correspondence(ctx, nshapes, nq, nusers, cluster_cases, ndist, npp, nhist):
     drv = core.Driver(DRIVER)
     corr_corpus(ctx, drv)
     corr_history(ctx, drv, nhist)
+    corr_robust(ctx, drv, max(20, nhist // 4))
     corr_shapes(ctx, drv, ['hex', 'hexshape', 'sec3', 'rect', 'rect', 'square', 'circle', 'wrap', 'sector'], nshapes, nq)
     corr_users(ctx, drv, nusers, 40)
     corr_clusters(ctx, drv, cluster_cases)
@@ -1510,19 +2884,13 @@ def oracles(ctx, nshapes, nq, nusers, cluster_cases, ndist, npp, nhist):
     for name, call, case in load_corpus():
         run_oracle(ctx, call, case, key=('corpus', name))
         ctx.branch('corpus')
-    # setter histories: every kind with a shrinking and a growing radius first, then seeded histories
-    for kind in ('hex', 'sec3', 'square', 'rect', 'wrap:hex', 'wrap:sec3', 'wrap:square'):
-        for f in (0.05, 0.2, 5.0):
-            case = gen_history(ctx.rng, kind)
-            _, R0, _ = hist_initial(case)
-            case['ops'] = [['R', round(R0 * f, 9)]] + case['ops'][:ctx.rng.randint(0, 2)]
-            t = hist_current_spec(case)
-            case['queries'] = gen_queries(ctx.rng, t, 6)
-            case['angles'] = gen_angles(ctx.rng, t, 6)
-            run_oracle(ctx, 'setter_history', case, key=('hist-fixed', kind, f))
+    # histories: every kind through every mutator / rejected call first, then seeded histories
+    for i, case in enumerate(fixed_histories(ctx.rng)):
+        run_oracle(ctx, 'setter_history', case, key=('hist-fixed', i, repr(case['init'])))
     for _ in range(nhist):
         case = gen_history(ctx.rng)
         run_oracle(ctx, 'setter_history', case, key=('hist', repr(case['init']), repr(case['ops'])))
+    robust_oracles(ctx, max(30, nhist // 2))
     for _ in range(3):
         run_oracle(ctx, 'CellWrap.readonly', {'wrap': gen_pos(ctx.rng), 'init': gen_spec(ctx.rng, ['hex', 'sec3', 'square'])})
     for _ in range(nshapes):
@@ -1629,7 +2997,16 @@ def check(ctx):
                              'history:hex', 'history:sec3', 'history:square', 'history:wrap:sec3', 'history:wrap:square',
                              'history:sectors', 'history-op:P', 'history-op:R', 'history-op:T', 'history-op:W',
                              'history-radius:shrink', 'history-radius:grow', 'history-randuser:cell',
-                             'history-randuser:sector']
+                             'history-randuser:sector', 'history-op:M', 'history-op:Q', 'history-op:U', 'history-op:B',
+                             'history-op:D', 'history-op:X', 'history:users-tracked',
+                             'R1:narrow-int', 'R1:python-int', 'R1:narrow-float', 'R1:container', 'R1:corr:narrow-int',
+                             'R2:strided', 'R2:reversed', 'R2:fortran', 'R2:broadcast', 'R2:0-d', 'R2:empty', 'R2:read-only',
+                             'R2:corr:strided', 'R3:returned-arrays', 'R3:corr:overwritten-output',
+                             'R4:rejected:add_user_outside', 'R4:rejected:add_user_outside_relative',
+                             'R4:rejected:border_ratio', 'R4:rejected:sector_index', 'R4:rejected:wrap_radius',
+                             'R5:rotation-multiple-of-90', 'R5:ratio-0-1-None', 'R5:size-boundary', 'R5:zero-counts',
+                             'R5:unit-cell-at-origin', 'R6:scale:1e-12', 'R6:scale:1e+12', 'R6:scaled-input',
+                             'R7:move-helper', 'R7:shared-class-cache', 'R7:shared-wrapped-cell']
     cases = cluster_cases_for(ctx, nrot)
     try:
         correspondence(ctx, nshapes, nq, nusers, cases, ndist, npp, nhist)
